@@ -12,532 +12,273 @@ Definition show_fres (r : fres) : string :=
   end.
 Definition check (rs : list rune) : string := digest (show_fres (format_res rs)).
 Definition full (rs : list rune) : string := show_fres (format_res rs).
-Eval vm_compute in ("<<<M3853>>>" ++ check (runes_of_ascii "
-root
-packet i64_
-    {
-
-    u64
-
-Z9_
-	@lengthOf(// packet A { u8 x, }
-	  uint8x 
-)  `
-` ,
-    repeat	zchar
-
-    x 
-,
-	match 
-Packet
-
-as a1  {
-
-    [
-""a	b"" ]
-
-    : packetx
-[  255
-
-    ,
-
-""x y""
-,""" ++ [28040; 24687]%N ++ runes_of_ascii """ 
-, 
-10  ,
-	""it's""  , 4294967296
-, """" 
-]
-:
-
-falsey	,
-	} , 
-rootA{ 
-repeat
-charz {// " ++ [128512]%N ++ runes_of_ascii " emoji
-  match
-
-    x
-as 
-a1
-
-{ 10: 
-metadata //
-	,[
-
-""{,}""
-
-,  00 ,
-""a	b""
-,
-    007, ""abc""
-    ,  ""// no comment"" ]:  int ,
-3
-    :	tag	,255
-    :
-
-x ,
-""{,}""  : Z9_
-
-    ,  } , }
-	,
-    //
-	body// @lengthOf(
-	{
-    repeat  roots
-{
-    f32 i8i8/// triple
-	@calculatedFrom(
-
-""a\\"" )
-	`line1
-line2`
-	,
-    }
-
-,
-i8	leftPad
-`doc`
-,
-}
-    ,  o
-@calculatedFrom(  """ ++ [28040; 24687]%N ++ runes_of_ascii """	)  `" ++ [28040; 24687; 31867; 22411]%N ++ runes_of_ascii "`
-    ,
-    }
-, 
-match 
-calculatedFrom
-    as chars
-
-{
-
-// " ++ [27880; 37322]%N ++ runes_of_ascii "
-      10: i64_
-    , }
-
-,
-
-@lengthOf( i8i8 
-) @tag(
-	3 )
-
-    match
-
-    Logon
-as 
-o
-{[ 
-""""
-	// a // b
-  	, //
-
-42	,  ""it's""
-,
-
-""" ++ [28040; 24687]%N ++ runes_of_ascii """
-
-,
-
-""""
-
-    , """ ++ [28040; 24687]%N ++ runes_of_ascii """]
-	:  tag , 
-}	// " ++ [27880; 37322]%N ++ runes_of_ascii "
-, 	 // `tick` ""quote"" 'q'
-    zchar[ 
-0123456789
-]
-    rootA @calculatedFrom( 
-""abc""
-) ,
-
-    zchar[4294967296 ]
-    Z9_ ,
-zchar[
-    65535  
-  // " ++ [128512]%N ++ runes_of_ascii " emoji
-
-// " ++ [128512]%N ++ runes_of_ascii " emoji
-    ] Header
-@lengthOf(trueish
-
-)  ,@tag( 
-// `tick` ""quote"" 'q'
-    //x
-	0123456789	// " ++ [27880; 37322]%N ++ runes_of_ascii "
-)
-	repeat
-
-trueish	{float
-
-{ 
-repeat	char[ 
-10 ] metadata
-	,
-    f32
-
-    float
-
-,  As
-@calculatedFrom(
-	""" ++ [233]%N ++ runes_of_ascii "t" ++ [233]%N ++ runes_of_ascii """)
-
-    ,	tag @calculatedFrom(
-""CRC32""  // trailing space 
-	)
-	`line1
-line2`,}
-
-    ,}  ,
-
-}
-packet  packetx{
-char[]
-options1 , 
-        //
-	//x
-	@calculatedFrom(
-    """ ++ [28040; 24687]%N ++ runes_of_ascii """
-)
-	@tag(1 
-
-/// triple
-	//
-      ) match  lengthOf
-as
-
-    calculatedFrom {
-
-    ""packet""
-	:
-	//
-      uint8x 	 /// triple
-[
-	""" ++ [128512]%N ++ runes_of_ascii """]: trueish,
-[ ""CRC32""
-
-    ,
-
-    3 ]
-    : 
-uint8x 
-,	[
-
-    ""\n"" , ""{,}""]  //
-:
-
-metadata ,
-
-    }
-
-    , 
-@tag(
-
-    00 
-)match
-    Foo	as
-
-    falsey
-
-{ 0
-
-:
-pack,}
-,
-@calculatedFrom( ""{,}""
-
-    )repeat  Logon
-`" ++ [233]%N ++ runes_of_ascii "`
-
-,@lengthOf(stringy
-	)
-A@lengthOf(pack ),@tag(	00 	 // packet A { u8 x, }
-    	) match
-u8x
-	as Packet{65535
-: _x  ,
-    } , 
-      // a // b
-@rightPad
-
-( 
-)leftPad@calculatedFrom(  // packet A { u8 x, }
-
-	"""" )`
-`	/// triple
-,
-
-    @calculatedFrom(
-	""""
-    )@tag(// trailing space 
-	4294967296 
-) @tag(
-7 )
-zchar[ // `tick` ""quote"" 'q'
-10 
-]asx
-
-`tab	here`
-,	@lengthOf(	options1) 
-  //
-	f32
-
-packetx, 
-    // trailing space 
-    calculatedFrom
-{ zchar[ 0 
-]
-	Packet
-
-, 
-}
-    , // @lengthOf(
-      } MetaData u128 
-{
-}  packet
-
-    o 
-{@lengthOf(
-
-    lengthOf)
-    tag body`line1
-line2`
-
-    , 
-packetx ,	repeat uint32
-
-    chars
-,
-match	pack as
-
-u128
-    {""it's"":a1 ,[
-""x y"" ,  ""it's"" 
-]
-    :
-	packetx 
-  /// triple
-	  // @lengthOf(
-		,  }
-    ,@leftPad
-(  /// triple
-  )@calculatedFrom(	""packet""
-)
-    //
-      @calculatedFrom(
-""1"" )
-    match i8i8
-as	Pad
-	{ 
-[ 1
-	,
-4294967296 , 
-
-    // `tick` ""quote"" 'q'
-	//x
-    	""\n""
-]	:  T,
-}, tag  Foo
-
-,
-A
-{ repeat 
-// a // b
-  // " ++ [128512]%N ++ runes_of_ascii " emoji
-  pack	,	// `tick` ""quote"" 'q'
-
-  repeat T{string	asx
-@calculatedFrom(
-
-    ""// no comment""
-
-)
-	`
-` //	t
-	, char[] x
-
-    @lengthOf(
-	trueish
-
-    )	// a // b
-,
-
-zchar[ 
-007 ]
-body
-@lengthOf( A )
-`two words`  ,	}
-, repeat uint8x
-
-    { match
-    leftPad
-    as
-A {[ 
-""\" ++ [233]%N ++ runes_of_ascii """ ]
-:
-metadata , }  // @lengthOf(
-	  , repeat
-MetaDataX  //
-	int
-`u8 x,` , 
-match  rootA
-as 
-Foo
-{
-
-""x y""
-: Logon ,
-}	,
-	match MetaDataX
-
-as
-	// c
-
-  metadata{
-	4294967296 // @lengthOf(
-  :_x ,[
-""{,}""	,  """" // `tick` ""quote"" 'q'
-  ,
-""1""  ,// " ++ [128512]%N ++ runes_of_ascii " emoji
-4294967296
-
-    ,
-""\" ++ [233]%N ++ runes_of_ascii """, ""abc"" 
-    // packet A { u8 x, }
-	] :
-roots, [
-    ""{,}"" 	 // trailing space 
-,
-	""" ++ [128512]%N ++ runes_of_ascii """	]
-:
-    Z9_
-	,
-""a	b""
-    :
-
-trueish
-
-    ,
-
-""\" ++ [233]%N ++ runes_of_ascii """:int [  0 , 
-1
-]
-:  i64_	,
-
-    }
-,
-
-    } // @lengthOf(
-  ,
-},
-repeat chars
-    u8x
-, 
-Logon int  `u8 x,`
-    , repeat packetx
-`a\`  ,
-
-}")).
-Eval vm_compute in ("<<<M4582>>>" ++ check (runes_of_ascii "packet f32a {
-    @calculatedFrom(""packet"")
-    @tag(00)
-    @leftPad('0')
-    rootA,
-    @tag(65535)
-    string roots @lengthOf(MetaDataX) `" ++ [233]%N ++ runes_of_ascii "`,
-    @rightPad()
-    zchar[10] matchKey @lengthOf(float),
-    @rightPad()
-    roots MetaDataX,
-    u128,// c
-    match len as BodyLength {
-        """ ++ [128512]%N ++ runes_of_ascii """ : float,
+Eval vm_compute in ("<<<M4304>>>" ++ check (runes_of_ascii "root packet i64_ {
+    u64 Z9_ @lengthOf(uint8x) `
+        `,
+    repeat zchar x,
+    match Packet as a1 {
+        [""a	b""] : packetx,
         [
-            4294967296, 00, 0123456789, 65535, 7,
-            ""`tick`"", ""it's"", ""\n""
-        ] : calculatedFrom,
-        [007, ""packet"", ""\" ++ [233]%N ++ runes_of_ascii """] : _x,
-        [0123456789, """ ++ [128512]%N ++ runes_of_ascii """, ""a\""b""] : _x,
-        65535 : As,
-        255 : stringy,
+            255, ""x y"", """ ++ [28040; 24687]%N ++ runes_of_ascii """, 10, ""it's"",
+            4294967296, """"
+        ] : falsey,
     },
-    calculatedFrom {
-        char[] matchKey @calculatedFrom(""" ++ [128512]%N ++ runes_of_ascii """),
-        u32 u8x @lengthOf(i8i8),
-        f32a options1 `line1
-        line2`,
-        float64 rootA,
+    rootA {
+        repeat charz {
+            // " ++ [128512]%N ++ runes_of_ascii " emoji
+            match x as a1 {
+                10 : metadata,
+                [
+                    ""{,}"", 00, ""a	b"", 007, ""abc"",
+                    ""// no comment""
+                ] : int,
+                3 : tag,
+                255 : x,
+                ""{,}"" : Z9_,
+            },
+        },
+        //
+        body {
+            repeat roots {
+                f32 i8i8 @calculatedFrom(""a\\"") `line1
+                                line2`,
+            },
+            i8 leftPad `doc`,
+        },
+        o @calculatedFrom(""" ++ [28040; 24687]%N ++ runes_of_ascii """) `" ++ [28040; 24687; 31867; 22411]%N ++ runes_of_ascii "`,
     },
-    @tag(0)
-    @lengthOf(Z9_)
-    T Foo `" ++ [233]%N ++ runes_of_ascii "`,
-    match T as Packet {
-        3 : u8x,
-        4294967296 : matchKey,
-        """ ++ [233]%N ++ runes_of_ascii "t" ++ [233]%N ++ runes_of_ascii """ : Foo,
-        ""a\""b"" : repeatCount,
-        7 : stringy,
+    match calculatedFrom as chars {
+        // " ++ [27880; 37322]%N ++ runes_of_ascii "
+        10 : i64_,
     },
-    @leftPad('\x00')
-    repeat pack,
+    @lengthOf(i8i8)
+    @tag(3)
+    match Logon as o {
+        [
+            """", 42, ""it's"", """ ++ [28040; 24687]%N ++ runes_of_ascii """, """",
+            """ ++ [28040; 24687]%N ++ runes_of_ascii """
+        ] : tag,
+    },// `tick` ""quote"" 'q'
+    zchar[0123456789] rootA @calculatedFrom(""abc""),
+    zchar[4294967296] Z9_,
+    zchar[65535] Header @lengthOf(trueish),
+    @tag(0123456789)
+    repeat trueish {
+        float {
+            repeat char[10] metadata,
+            f32 float,
+            As @calculatedFrom(""" ++ [233]%N ++ runes_of_ascii "t" ++ [233]%N ++ runes_of_ascii """),
+            tag @calculatedFrom(""CRC32"") `line1
+                        line2`,
+        },
+    },
 }
 
-packet x {
-    @lengthOf(falsey)
-    repeat int32 a1,
-    @leftPad()
-    repeat f32a,
-    match Foo as calculatedFrom {
-        ""x y"" : calculatedFrom,
-        7 : len,
-        ""abc"" : charz,
+packet packetx {
+    char[] options1,
+    //
+    //x
+    @calculatedFrom(""" ++ [28040; 24687]%N ++ runes_of_ascii """)
+    @tag(1)
+    match lengthOf as calculatedFrom {
+        ""packet"" : uint8x,
+        /// triple
+        [""" ++ [128512]%N ++ runes_of_ascii """] : trueish,
+        [""CRC32"", 3] : uint8x,
+        [""\n"", ""{,}""] : metadata,
     },
-    uint8x,
-    @lengthOf(o)
-    // " ++ [27880; 37322]%N ++ runes_of_ascii "
-    repeat string_ {
-        zchar[7] Packet @calculatedFrom(""x y""),
-        repeat string charz,
-        float64 _x @calculatedFrom(""1""),
+    @tag(00)
+    match Foo as falsey {
+        0 : pack,
     },
-    crc,
-    char[65535] metadata @calculatedFrom(""\n"") `" ++ [28040; 24687; 31867; 22411]%N ++ runes_of_ascii "`,
-    repeat uint64 msg_type `{ , }`,
-    char[1] charz,
-    @rightPad('\x00')
-    repeat i32 o `crlf
-    line`,
-}
-
-MetaData i8i8 {
-    rootA packetx `doc`,
-    x As,
-}
-
-//
-root packet u128 {
-}
-
-packet falsey {
-    u @lengthOf(i8i8),
-    @lengthOf(u)
-    f32 Header,
-    @calculatedFrom(""`tick`"")
-    stringy @calculatedFrom(""" ++ [233]%N ++ runes_of_ascii "t" ++ [233]%N ++ runes_of_ascii """) `two words`,
-    char[65535] string_ @lengthOf(lengthOf),
-    Pad u128,
-    Packet `
-    `,// `tick` ""quote"" 'q'
-    @calculatedFrom(""abc"")
-    char[00] roots `line1
-    line2`,
+    @calculatedFrom(""{,}"")
+    repeat Logon `" ++ [233]%N ++ runes_of_ascii "`,
+    @lengthOf(stringy)
+    A @lengthOf(pack),
+    @tag(00)
+    match u8x as Packet {
+        65535 : _x,
+    },
+    // a // b
+    @rightPad()
+    leftPad @calculatedFrom("""") `
+        `,
+    @calculatedFrom("""")
+    @tag(4294967296)
     @tag(7)
-    char[] trueish @calculatedFrom(""\n""),
+    zchar[10] asx `tab	here`,
+    @lengthOf(options1)
+    //
+    f32 packetx,
+    // trailing space 
+    calculatedFrom {
+        zchar[0] Packet,
+    },// @lengthOf(
+}
+
+MetaData u128 {
+}
+
+packet o {
+    @lengthOf(lengthOf)
+    tag body `line1
+        line2`,
+    packetx,
+    repeat uint32 chars,
+    match pack as u128 {
+        ""it's"" : a1,
+        [""x y"", ""it's""] : packetx,
+    },
+    @leftPad()
     @calculatedFrom(""packet"")
-    @lengthOf(As)
-    char[3] charz @lengthOf(options1),
-    u32 _x @calculatedFrom(""a\\"") `u8 x,`,
+    //
+    @calculatedFrom(""1"")
+    match i8i8 as Pad {
+        [1, 4294967296, ""\n""] : T,
+    },
+    tag Foo,
+    A {
+        repeat pack,// `tick` ""quote"" 'q'
+        repeat T {
+            string asx @calculatedFrom(""// no comment"") `
+                        `,
+            char[] x @lengthOf(trueish),
+            zchar[007] body @lengthOf(A) `two words`,
+        },
+        repeat uint8x {
+            match leftPad as A {
+                [""\" ++ [233]%N ++ runes_of_ascii """] : metadata,
+            },
+            repeat MetaDataX int `u8 x,`,
+            match rootA as Foo {
+                ""x y"" : Logon,
+            },
+            match MetaDataX as metadata {
+                4294967296 : _x,
+                [
+                    ""{,}"", """", ""1"", 4294967296, ""\" ++ [233]%N ++ runes_of_ascii """,
+                    ""abc""
+                ] : roots,
+                [""{,}"", """ ++ [128512]%N ++ runes_of_ascii """] : Z9_,
+                ""a	b"" : trueish,
+                ""\" ++ [233]%N ++ runes_of_ascii """ : int,
+                [0, 1] : i64_,
+            },
+        },
+    },
+    repeat chars u8x,
+    Logon int `u8 x,`,
+    repeat packetx `a\`,
 }")).
+Eval vm_compute in ("<<<M87>>>" ++ check (runes_of_ascii "packet Logon{
+    repeat string
+a1 `crlf
+line` ,@lengthOf(
+Pad
+    ) match  Pad as
+u8x
+    { 4294967296
+//
+// " ++ [128512]%N ++ runes_of_ascii " emoji
+: // `tick` ""quote"" 'q'
+i8i8 , } ,
+asx a1 ,
+// a // b
+// @lengthOf(
+@lengthOf(body ) //x
+msg_type int
+,tag`line1
+line2` , repeat
+// packet A { u8 x, }
+// packet A { u8 x, }
+Z9_{ u16
+    packetx	@calculatedFrom(
+    ""it's"" ) , } , @lengthOf(
+// " ++ [128512]%N ++ runes_of_ascii " emoji
+//	t
+Logon ) // " ++ [128512]%N ++ runes_of_ascii " emoji
+@rightPad (
+)	@calculatedFrom(""" ++ [233]%N ++ runes_of_ascii "t" ++ [233]%N ++ runes_of_ascii """ ) repeat roots	u128 // `tick` ""quote"" 'q'
+,@calculatedFrom( ""{,}"") chars{ match // " ++ [128512]%N ++ runes_of_ascii " emoji
+roots as Foo {
+    10 :trueish
+// trailing space 
+// @lengthOf(
+, },} , i8i8 ,@calculatedFrom( ""x y"" ) @calculatedFrom( ""a\""b"" ) repeat Z9_
+{  f32a msg_type ,
+repeat o{
+// " ++ [128512]%N ++ runes_of_ascii " emoji
+// @lengthOf(
+zchar[ 0	]
+charz @calculatedFrom(""CRC32"" ) ,
+}
+,}
+    ,
+} root
+    packet	BodyLength
+{ calculatedFrom
+{
+char[]x@calculatedFrom(
+""\n""
+)
+    , // @lengthOf(
+_x @calculatedFrom( ""`tick`""
+    ),	repeat u128,float Packet
+`" ++ [28040; 24687; 31867; 22411]%N ++ runes_of_ascii "`
+    ,}
+    , repeat Foo	{ uint64 a1
+    // `tick` ""quote"" 'q'
+    , } , /// triple
+repeat char[ 42 ] matchKey `it's` ,	lengthOf{ // " ++ [27880; 37322]%N ++ runes_of_ascii "
+u128 trueish  `// not a comment`, match
+chars as MetaDataX {
+00
+    : x_y_z 1
+: trueish, [ 0123456789 ]
+    :	calculatedFrom , [
+    ""CRC32"" ,	""\" ++ [233]%N ++ runes_of_ascii """
+, ""// no comment""
+    , ""it's"" ,	""packet""
+    , 007 ] : Pad
+,
+} ,  } /// triple
+, repeat char[] Logon // `tick` ""quote"" 'q'
+, @leftPad
+    ( '0' //x
+) f32
+    Pad
+    @calculatedFrom(""CRC32"" ) , @lengthOf(
+BodyLength )  options1 @calculatedFrom( ""`tick`"") , A {
+// " ++ [27880; 37322]%N ++ runes_of_ascii "
+//	t
+uint8 charz`u8 x,`
+, falsey x
+`line1
+line2`  , repeat
+    int8 Packet
+    ,zchar[ 1 ] float
+    , }
+, char[ 65535 ] matchKey
+@calculatedFrom( //
+""x y""
+    ) // trailing space 
+, @lengthOf( o//x
+)match	chars
+    as As {	1
+    : f32a
+,
+} , }
+packet
+//	t
+// packet A { u8 x, }
+int
+{ @calculatedFrom( // trailing space 
+""// no comment"" ) @rightPad ( ) @calculatedFrom( """ ++ [233]%N ++ runes_of_ascii "t" ++ [233]%N ++ runes_of_ascii """ ) roots _x
+/// triple
+// trailing space 
+`say ""hi""`	, // `tick` ""quote"" 'q'
+} options { o= ""{,}"" Pad =
+    255 ;  } // " ++ [27880; 37322]%N)).
 Eval vm_compute in ("<<<M239>>>" ++ check (runes_of_ascii "packet
 //
 // " ++ [128512]%N ++ runes_of_ascii " emoji
@@ -624,1942 +365,1848 @@ string
 //
 roots`say ""hi""` ,}
 ")).
-Eval vm_compute in ("<<<M4279>>>" ++ check (runes_of_ascii "// top
-      options// c0
-{ 	 // c1
-  StringPrefixLenType
-    = // c3a
-    // c3b
-	u8 	 // c4a
+Eval vm_compute in ("<<<M3682>>>" ++ check (runes_of_ascii "MetaData msg_type {
+    trueish i8i8,
+    float32 msg_type,
+    options1 BodyLength `two words`,
+    u128 body `u8 x,`,
+}// trailing space 
 
-// c4b
-; 
-        // c5
-  ArrayPrefixLenType 
-=	u32 	 // c8
-; }	// c10
-    packet Quote // c12
-    {  // c13a
-	  // c13b
-  	u32 	 // c14a
-	// c14b
-
-Ref// c15a
-// c15b
-    , InNote74{ 
-      // c18
-  u8
-
-    // c19
-
-  pad0	// c20a
-    // c20b
-    , }
-	    // c22
-, 
+packet Logon {
+    repeat i32 metadata `
+        `,
+    @calculatedFrom(""x y"")
+    // c
+    i64_,
+    i64 int @lengthOf(pack),
+    char[] charz,
+    // @lengthOf(
+    match _x as pack {
+        3 : body,
+        [""// no comment"", ""a\""b""] : uint8x,
+        3 : lengthOf,
+    },
+    matchKey,
+    roots {
+        _x @lengthOf(Pad),
+        repeat a1 _x,
+    },
+    string T,
+    @lengthOf(Pad)
+    match f32a as u {
+        // a // b
+        [
+            10, """ ++ [233]%N ++ runes_of_ascii "t" ++ [233]%N ++ runes_of_ascii """, ""`tick`"", 255, 0123456789,
+            ""1"", ""a	b"", 3
+        ] : options1,
+    },
 }
 
-    // c24
-	packet	// c25a
-	// c25b
+MetaData u128 {
+    char[10] tag,
+    pack stringy,
+    char pack,
+}
 
-Ack 
-	// c26
-  {// c27a
-      // c27b
-repeat	// c28a
+root packet Header {
+    match Foo as Logon {
+        [""" ++ [233]%N ++ runes_of_ascii "t" ++ [233]%N ++ runes_of_ascii """, ""CRC32""] : falsey,
+        [""" ++ [233]%N ++ runes_of_ascii "t" ++ [233]%N ++ runes_of_ascii """, """"] : u128,
+        [
+            00, ""a\""b"", 7, ""it's"", """ ++ [28040; 24687]%N ++ runes_of_ascii """,
+            00, 255, 00
+        ] : asx,
+        ""// no comment"" : charz,
+        ""1"" : Packet,
+        [""// no comment"", 1] : zchar,
+    },
+    @lengthOf(u8x)
+    @tag(007)
+    @lengthOf(pack)
+    u8 _x `doc`,
+    zchar[0123456789] Packet @lengthOf(o),
+    match chars as msg_type {
+        ""\n"" : lengthOf,
+        0123456789 : a1,
+        [4294967296] : stringy,
+        [""`tick`"", ""`tick`"", 0] : falsey,
+        [
+            007, 65535, 65535, 10, ""abc"",
+            3
+        ] : body,
+    },
+    zchar[10] Logon,
+}
 
-// c28b
+packet Packet {
+}// " ++ [27880; 37322]%N)).
+Eval vm_compute in ("<<<M4164>>>" ++ check (runes_of_ascii "  packet float {@leftPad
+    (	// packet A { u8 x, }
+    '\x00'
 
-  string OrderId 	 // c30a
-		// c30b
-    ,// c31
-  }
-// c32
+) i64_{string  Z9_ , } , 
+@tag(//x
+0  )
 
-packet	// c33
-  Logout
-    { 	 // c35a
-		// c35b
-zchar[
-7
-    // c37
-		]// c38a
+    char[] 
+u8x
 
-  // c38b
-  venue,
-	// c40
-
-	char[ 	 // c41
-      12
-    // c42
-  ]
-
-// c43
-    Px
-
-    ,  
-  // c45
-string count
-,
-    // c48
-      char[]Tail
-
-    // c50
-
-	, 	 // c51a
-      // c51b
-    char[] Qty 	 // c53
-    ,
-Quote 	 // c55a
-// c55b
-  ,
-    } // c57a
-	  // c57b
-root
-        // c58
-      packet  // c59a
-// c59b
-
-	Trade// c60
-	{
-	// c61
-zchar[ // c62
-	  2 
-        // c63
-
-  ]// c64
-  	price 	 // c65a
-  // c65b
-  , 
-// c66
-    	u32
-
-x 	 // c68a
-    // c68b
-		,
-u32 
-    // c70
-
-  lastPx@lengthOf(// c72a
-
-  // c72b
-
-Body 
-
-    // c73
-) 	 // c74a
-// c74b
-,  // c75a
-	// c75b
-  	match  x 	 // c77a
-      // c77b
-
-  as
-Body
-
-    {  
-      // c80
-148// c81
-	: // c82a
-
-  // c82b
-Ack  
-      // c83
-,	// c84a
-    // c84b
-	171
-	    // c85
-
-:Quote
-
-, 	 // c88a
-    // c88b
-  15// c89
-	:
-	Logout	// c91
-  ,
-
-    } 
-    // c93
-    ,	// c94
-	}")).
-Eval vm_compute in ("<<<M875>>>" ++ check (runes_of_ascii "packet Z9_ {  @tag( 4294967296
-) char[255
-    ]msg_type @calculatedFrom(
-    ""abc""	),
-uint16 x  `" ++ [28040; 24687; 31867; 22411]%N ++ runes_of_ascii "`, @rightPad (
-'0' ) match len as Logon {
-    7 : metadata , ""{,}"": u8x
-,[ ""\n"", 65535 ,
-65535 ]
-// " ++ [128512]%N ++ runes_of_ascii " emoji
-// " ++ [27880; 37322]%N ++ runes_of_ascii "
-: int
-    ,""a\""b"" :	leftPad} , zchar[ 42] rootA, @calculatedFrom(
-// @lengthOf(
-// " ++ [128512]%N ++ runes_of_ascii " emoji
-""a\\"" ) zchar[42] A , Packet// trailing space 
-{
-    repeat //
-u128 {repeat
-chars{ tag  BodyLength , float32 calculatedFrom	`doc` ,match x as string_ {
-""{,}""
-:
-x """"
-: packetx	, } , }, } /// triple
-,  }
-// trailing space 
-/// triple
-,
-    // `tick` ""quote"" 'q'
-    @rightPad( ) options1
-`u8 x,`
-, repeat//
-i32 repeatCount,@lengthOf(Foo )@calculatedFrom( ""packet"" )int32 As
-    @lengthOf( Pad )
-, }
-packet As {@tag(  65535 /// triple
-)int asx
-    `line1
-line2` , @calculatedFrom( """ ++ [28040; 24687]%N ++ runes_of_ascii """) @rightPad (
-// " ++ [27880; 37322]%N ++ runes_of_ascii "
-//	t
-)int32
-    // c
-    leftPad
-`" ++ [28040; 24687; 31867; 22411]%N ++ runes_of_ascii "` ,char[] zchar , string x_y_z
-,  f64
-// a // b
-/// triple
-repeatCount
-    @calculatedFrom(
-// trailing space 
-// @lengthOf(
-""x y"") ,
-    @leftPad () match falsey as
-int  { """ ++ [28040; 24687]%N ++ runes_of_ascii """ : MetaDataX 007
-: msg_type , ""CRC32""
-: Header ,//
-4294967296 : charz , 255
-:trueish
-    1  : Header , } ,@lengthOf(// packet A { u8 x, }
-leftPad // c
-)_x , }
-packet chars //
-{match string_ as A { /// triple
-""`tick`""
-: Foo ,  3:trueish
-    ,} ,
-match Header
-    as	repeatCount{ """ ++ [128512]%N ++ runes_of_ascii """
-: asx ,42	:leftPad , } , }
-")).
-Eval vm_compute in ("<<<M3923>>>" ++ check (runes_of_ascii "packet 
-As	// trailing space 
-    	{
-	match
-
-    asx
-    as Header{10 :  Packet
-    ""abc"":u
-	,
-	42
-
-    :
-
-Header,
-    [ 
+@calculatedFrom( 
 ""a	b""
+)
+    , @lengthOf(	u128
+    ) int8
+    u
+`two words`
 
-    ,
-	255
-	,
-	42
-]	// trailing space 
-  	:
-	leftPad
+    ,u64
 
-    00 :
-	int	,
-[
-""x y""
-, 7]
+    Foo `a\`  //x
+  ,@leftPad// packet A { u8 x, }
+      ( '0'  )
 
-:
+    repeat 
 
-    packetx
-	,
+    //x
 
-},
+	// " ++ [128512]%N ++ runes_of_ascii " emoji
+    	repeatCount  //x
 
-    repeat zchar[ 
-007	] options1  , 
-body	// @lengthOf(
-MetaDataX
-    // " ++ [27880; 37322]%N ++ runes_of_ascii "
-    ,
+	{ 
+repeat  Pad
+{repeat
 
-    @leftPad
-
-    (
-
-)	string  x_y_z
-
-    ,
-
-@lengthOf( 
-x
-
-    )
-    @rightPad ( '0'
-)match
-
-T
-
-as	tag  {  ""CRC32"":
-	stringy ,
-	00
-    :	//x
-
-packetx
-	[
-    // `tick` ""quote"" 'q'
-  255
-,""packet""	// a // b
-  ] : 
-A
-
-, [ 255
+    tag { char[ 
+00] //	t
+	  Logon  `it's`  ,
+    string_ , }
 ,
-	    //x
 
-//	t
+    match// " ++ [128512]%N ++ runes_of_ascii " emoji
 
-  1
-    //	t
-  // @lengthOf(
+As // c
+as
 
-  ,  
-  // @lengthOf(
-    	""abc"" 
-,  1 
-    // " ++ [27880; 37322]%N ++ runes_of_ascii "
-  //	t
-	,
-
-""1"" ,	""" ++ [233]%N ++ runes_of_ascii "t" ++ [233]%N ++ runes_of_ascii """
-    ,	10
-    ,	// packet A { u8 x, }
-
-	00
-] :
-i8i8 ""\n""  // a // b
-	:
-
-_x  , }
-    ,MetaDataX
-{
+matchKey
+    {  7 :  lengthOf
+}
+    ,
 match
 
-    trueish 
-as 
-uint8x
-{1
-    :
-	x
-,3  : a1, 
-""a\""b""  : 
-u128  , } ,
+u128
 
-}  ,float64 
-calculatedFrom@calculatedFrom(  """ ++ [28040; 24687]%N ++ runes_of_ascii """
-        //	t
+    as tag
 
+    {[
+	7  ] 
+: 	 // " ++ [128512]%N ++ runes_of_ascii " emoji
+  Packet 
+    //	t
+  ,""" ++ [28040; 24687]%N ++ runes_of_ascii """
+    :Foo
+
+, 
+65535  // " ++ [128512]%N ++ runes_of_ascii " emoji
+	:
+	calculatedFrom
 //x
-  )// c
+	//x
+		} /// triple
+	, // a // b
+} , // " ++ [128512]%N ++ runes_of_ascii " emoji
+	f32
+	options1 `doc`	// c
 
-`u8 x,`
-    ,
-	u64 float @lengthOf(// " ++ [128512]%N ++ runes_of_ascii " emoji
+,// trailing space 
+  	}
 
-matchKey )
-    ,}
+    , @leftPad  (
 
-    options {  metadata=//x
-	""{,}"" 	 //
-	a1
-	= u8
-;falsey
-    =
-1  ;
+    '0'
+) match 
+rootA// packet A { u8 x, }
+  as
+    i64_ 
+{
+3
+    // " ++ [128512]%N ++ runes_of_ascii " emoji
 
-_x  =
-	zchar[ 
-65535 ] 
-Header
-=
-    ' '
+//
+  : msg_type
+	,  ""abc"":
+    rootA ,
+        //	t
+	[
+""CRC32"" 
+] :
+	float 
+, 10:  pack
+	, 
+""" ++ [128512]%N ++ runes_of_ascii """ :
+	tag},@rightPad (
+        // trailing space 
+'\x00'	)char[
+	65535  ]_x  @calculatedFrom( """ ++ [128512]%N ++ runes_of_ascii """
+	)
 
-    } MetaData
-T 
+    ,char[ 4294967296]
+lengthOf
+@calculatedFrom(
+""// no comment""
+	) , @leftPad(' ' 
+)	zchar[
+007 
+]options1
+,  /// triple
+
+	} packet
+
+// " ++ [27880; 37322]%N ++ runes_of_ascii "
+
+  rootA 
 {
     }
+	packet 
+charz {repeat
+
+As``
+	,
+}	packet f32a
+	{ }
+    MetaData
+	roots
+
+    {body	matchKey`// not a comment`
+,
+}
+")).
+Eval vm_compute in ("<<<M3938>>>" ++ check (runes_of_ascii "MetaData asx {
+    char[] Z9_ `doc`,
+}
+
+packet roots {
+    a1 @lengthOf(string_),
+    char[0123456789] Logon `
+    `,// " ++ [128512]%N ++ runes_of_ascii " emoji
+    @calculatedFrom(""`tick`"")
+    i64 u128,
+    i32 matchKey `doc`,
+    match asx as pack {
+        /// triple
+        [0] : x_y_z,
+        0123456789 : float,
+        00 : packetx,
+        65535 : crc,
+        4294967296 : a1,
+    },
+    falsey float,
+    @calculatedFrom(""CRC32"")
+    // " ++ [128512]%N ++ runes_of_ascii " emoji
+    @lengthOf(body)
+    @lengthOf(MetaDataX)
+    // @lengthOf(
+    leftPad @calculatedFrom(""" ++ [28040; 24687]%N ++ runes_of_ascii """) `// not a comment`,
+    uint8 packetx @calculatedFrom(""a	b""),
+}
+
+packet Logon {
+}
+
+packet zchar {
+    /// triple
+    Z9_ {
+        repeat i8 Foo,
+        f64 falsey `tab	here`,
+        match msg_type as As {
+            255 : roots,
+            [4294967296, 7, ""`tick`"", 65535] : metadata,
+            """ ++ [233]%N ++ runes_of_ascii "t" ++ [233]%N ++ runes_of_ascii """ : x_y_z,
+            ""`tick`"" : x_y_z,
+            [
+                42, ""CRC32"", ""// no comment"", 0123456789, ""// no comment"",
+                ""CRC32"", """ ++ [128512]%N ++ runes_of_ascii """, ""{,}""
+            ] : packetx,
+        },
+        o @lengthOf(msg_type) `it's`,
+    },
+    @calculatedFrom(""" ++ [28040; 24687]%N ++ runes_of_ascii """)
+    uint64 x `crlf
+    line`,
+    zchar[7] Logon,
+    repeat rootA matchKey `crlf
+    line`,
+}// " ++ [27880; 37322]%N)).
+Eval vm_compute in ("<<<M133>>>" ++ check (runes_of_ascii "root packet x_y_z { match Z9_ as  u{ 255:pack , 255 : u128
+, 007 : float ""\n"" :options1 , [	""" ++ [28040; 24687]%N ++ runes_of_ascii """ , 1 ]
+: Z9_""" ++ [28040; 24687]%N ++ runes_of_ascii """:	chars
+, }, u8 _x @calculatedFrom(
+    // a // b
+    """ ++ [28040; 24687]%N ++ runes_of_ascii """ )`say ""hi""` ,@tag( 3 ) match a1 as msg_type { [ ""\n"" // a // b
+, 255//x
+, 0 ] :crc	,} , }
+root packet o
+{  match tag as _x
+    { 007 :
+    x ,	10 :charz,
+""{,}""
+:body	,""" ++ [233]%N ++ runes_of_ascii "t" ++ [233]%N ++ runes_of_ascii """ : len
+""" ++ [128512]%N ++ runes_of_ascii """
+    :
+    u , }
+    ,
+    u64 u @calculatedFrom( ""x y""
+// c
+// " ++ [27880; 37322]%N ++ runes_of_ascii "
+)
+`it's`, @lengthOf( trueish ) repeat // packet A { u8 x, }
+uint8 u8x
+`" ++ [28040; 24687; 31867; 22411]%N ++ runes_of_ascii "` // a // b
+, @calculatedFrom(	""\n"" )
+    @rightPad() @leftPad (
+    '\x00')
+    repeat uint32 float, @lengthOf(	A )
+    @tag(//	t
+0123456789 ) @rightPad ( ' '
+    ) zchar[ 10	]
+    // " ++ [128512]%N ++ runes_of_ascii " emoji
+    o// packet A { u8 x, }
+,
+    uint8x
+    @calculatedFrom( ""a\\"" // " ++ [27880; 37322]%N ++ runes_of_ascii "
+) `
+`
+,body
+, repeat //	t
+char[10 ]
+    string_ `tab	here`
+    , } root packet
+    roots {  } packet u {@calculatedFrom(	""" ++ [128512]%N ++ runes_of_ascii """ )	f64 Logon// `tick` ""quote"" 'q'
+@calculatedFrom( ""1""
+)
+    `a\` ,  int16 trueish `line1
+line2`
+,//
+zchar[  0123456789 ]
+    // a // b
+    BodyLength `two words`, float32 i8i8 @lengthOf( metadata ) `// not a comment`
+, i32 leftPad,	}
+
+")).
+Eval vm_compute in ("<<<M3593>>>" ++ check (runes_of_ascii "// top
+packet // c0
+A // c1a
+  // c1b
+{
+    // c2
+u8
+    // c3
+a // c4a
+  // c4b
+, } packet // c7a
+  // c7b
+B // c8a
+  // c8b
+{ // c9a
+  // c9b
+u16
+    // c10
+b
+    // c11
+, // c12a
+  // c12b
+} packet
+    // c14
+C // c15a
+  // c15b
+{ // c16
+u32 c
+    // c18
+, // c19a
+  // c19b
+}
+    // c20
+root // c21
+packet // c22a
+  // c22b
+M
+    // c23
+{ // c24a
+  // c24b
+u16 // c25
+Kc // c26
+,
+    // c27
+u16
+    // c28
+Kb // c29
+, // c30a
+  // c30b
+u16
+    // c31
+Ka
+    // c32
+,
+    // c33
+match // c34
+Kc as
+    // c36
+X // c37
+{
+    // c38
+9 // c39
+:
+    // c40
+A
+    // c41
+, 10 // c43
+: // c44a
+  // c44b
+B // c45a
+  // c45b
+, // c46a
+  // c46b
+}
+    // c47
+, // c48a
+  // c48b
+match Kb // c50
+as Y // c52a
+  // c52b
+{ 2
+    // c54
+: // c55
+C
+    // c56
+, // c57
+1 : A // c60
+, // c61
+} // c62a
+  // c62b
+, match // c64a
+  // c64b
+Ka as
+    // c66
+Z
+    // c67
+{ // c68a
+  // c68b
+1 // c69a
+  // c69b
+: // c70a
+  // c70b
+B
+    // c71
+,
+    // c72
+} , // c74a
+  // c74b
+A // c75
+, // c76
+B , // c78a
+  // c78b
+C // c79a
+  // c79b
+, // c80a
+  // c80b
+} // c81
+")).
+Eval vm_compute in ("<<<M253>>>" ++ check (runes_of_ascii "options{
+} packet matchKey { repeat
+int32 packetx, zchar[
+    10
+    //x
+    ] Packet
+    ,@lengthOf(string_
+) @tag( 007 ) @tag( 255 )// @lengthOf(
+Z9_ @calculatedFrom( """ ++ [28040; 24687]%N ++ runes_of_ascii """ ) ,
+@lengthOf(
+// `tick` ""quote"" 'q'
+// `tick` ""quote"" 'q'
+asx
+) @calculatedFrom(
+    // trailing space 
+    ""CRC32"" )
+string
+_x,
+    @calculatedFrom( """"
+    ) @lengthOf(
+trueish)x , @leftPad (
+)
+// `tick` ""quote"" 'q'
+/// triple
+zchar[ 4294967296 ]
+    float , @lengthOf(
+    // trailing space 
+    u128
+    )//	t
+Logon{repeat char[]x `u8 x,`, // packet A { u8 x, }
+} , @tag(
+1) f64 Z9_ ,
+u32 i64_
+`crlf
+line`  , @rightPad
+// `tick` ""quote"" 'q'
+// @lengthOf(
+( '\x00'	) @leftPad (	) repeat float32
+uint8x , }
+root packet
+u128
+    // `tick` ""quote"" 'q'
+    { i32
+    charz //	t
+@lengthOf( crc
+) `u8 x,`  ,// a // b
+@tag(
+65535 // " ++ [128512]%N ++ runes_of_ascii " emoji
+)// trailing space 
+@lengthOf( f32a ) repeat// " ++ [27880; 37322]%N ++ runes_of_ascii "
+Logon
+`{ , }`
+    , @rightPad (
+    ' ' ) @tag(65535
+)
+    repeat trueish , i32
+lengthOf
+    // `tick` ""quote"" 'q'
+    , }")).
+Eval vm_compute in ("<<<M4572>>>" ++ check (runes_of_ascii "root packet Pad {
+    char[00] stringy @calculatedFrom(""\" ++ [233]%N ++ runes_of_ascii """) `it's`,
+    zchar {
+        falsey Header `two words`,
+        Packet @lengthOf(int) ``,
+        charz asx,
+        u32 A,
+    },
+    string metadata,
+    repeat char[1] crc `
+        `,
+    Foo `it's`,
+}
+
+packet rootA {
+    repeat i32 matchKey,
+    repeat x_y_z `// not a comment`,
+    roots @calculatedFrom(""\n""),
+    x_y_z {
+        zchar[42] charz @lengthOf(u128),
+        leftPad `line1
+                line2`,
+    },
+    falsey crc `crlf
+        line`,
+    repeat char i64_ `a\`,
+}
+
+packet Packet {
+    repeat i64_ {
+        repeat metadata {
+            repeatCount `{ , }`,
+            int16 o,
+        },
+        //	t
+        repeat uint64 A,
+        float @calculatedFrom(""a\""b""),
+        zchar[7] T,
+    },
+    @leftPad('\x00')
+    repeatCount `a\`,
+}
+
+MetaData o {
+    // a // b
+    int repeatCount `line1
+        line2`,
+}
+
+options {
+    msg_type = 00//x
+}")).
+Eval vm_compute in ("<<<M512>>>" ++ check (runes_of_ascii "packet repeatCount{
+@lengthOf( uint8x)
+// @lengthOf(
+// c
+repeat  falsey options1 `" ++ [28040; 24687; 31867; 22411]%N ++ runes_of_ascii "`
+    // a // b
+    , @calculatedFrom(
+""a\""b"" )string A//
+,
+    @lengthOf(	metadata )  a1@calculatedFrom(
+""a\\""
+)`say ""hi""` ,  }
+packet leftPad {
+string msg_type `{ , }`,i8i8 @lengthOf( u8x // @lengthOf(
+) `// not a comment`
+, char matchKey	`" ++ [28040; 24687; 31867; 22411]%N ++ runes_of_ascii "` ,uint16
+    stringy `" ++ [233]%N ++ runes_of_ascii "` ,
+    zchar[ 0 ] uint8x  ,stringy
+@calculatedFrom(""x y""
+// `tick` ""quote"" 'q'
+// `tick` ""quote"" 'q'
+)
+    `{ , }`  ,
+match
+u	as
+MetaDataX {10:
+body,}
+    // " ++ [27880; 37322]%N ++ runes_of_ascii "
+    ,
+// `tick` ""quote"" 'q'
+// packet A { u8 x, }
+@lengthOf( T  ) @lengthOf( uint8x ) match uint8x
+//	t
+// `tick` ""quote"" 'q'
+as //x
+stringy{ ""\n"" :
+    Logon// c
+,
+42 :
+Header , [	""{,}"" ,
+    7 ]
+:As ""CRC32"":	Header
+    // c
+    , // c
+0 : leftPad ,  } ,
+}// `tick` ""quote"" 'q'
+options
+{  packetx =false  ; lengthOf
+    =
+    """ ++ [128512]%N ++ runes_of_ascii """ tag
+    = char[] ; }
+")).
+Eval vm_compute in ("<<<M4401>>>" ++ check (runes_of_ascii "
 MetaData
 
-    Z9_
-{
-string
-// " ++ [27880; 37322]%N ++ runes_of_ascii "
-  //	t
-f32a
-,len zchar
-,  }
-")).
-Eval vm_compute in ("<<<M3613>>>" ++ check (runes_of_ascii "options {
-    StringPrefixLenType = u16;
-    ArrayPrefixLenType = u8;
-    FixedStringPadFromLeft = true;
-    FixedStringPadChar = ' ';
-}
-packet Quote {
-    int64 OrderId,
-    char[] Ref,
-    @leftPad('0') char[5] price,
-}
-packet Heartbeat {
-    zchar[3] venue,
-    string Flags,
-}
-packet Trade {
-    repeat InTag787 {
-        i32 venue,
-        char[5] sym,
-        repeat InPx98 {
-            char[11] Qty,
-            Heartbeat,
-            char[] price,
-            u32 x,
-            float64 count,
-            repeat Quote,
-        },
-        zchar[7] Note,
-        repeat char[1] Tail,
-    },
-    repeat char[2] seqNo,
-    InTail55 {
-        repeat Quote,
-        string msgKind,
-        InPx18 {
-            char[] count,
-            repeat Quote,
-            uint16 Qty,
-        },
-        char[4] seqNo,
-        repeat Heartbeat,
-        repeat string sym,
-    },
-    repeat Quote,
-    Heartbeat,
-    @leftPad(' ') char[10] OrderId,
-}
-root packet Fill {
-    Heartbeat,
-    uint32 count,
-    u8 OrderId,
-    match OrderId as Body {
-        96 : Quote,
-        195 : Trade,
-        187 : Heartbeat,
-    },
-    u32 venue @calculatedFrom(""CR\
-C32""),
-}
-")).
-Eval vm_compute in ("<<<M3612>>>" ++ check (runes_of_ascii "options {
-    StringPrefixLenType
-	=u16	; ArrayPrefixLenType	= u8
-    ; FixedStringPadFromLeft
-= true  ;FixedStringPadChar
-    =' '
-	;
-	}	packet Quote
-	{
-
-int64
-    OrderId 
-,	char[]
-
-    Ref
-	,	@leftPad
-(  '0'	) char[ 
-5
-]price ,
-}
-packet
-    Heartbeat{zchar[
-
-3
-    ]
-venue  ,
-string
-Flags
-
-,
-
-}packet
-Trade  {  repeat
-
-    InTag787 { i32
-    venue,
-char[
-
-5	]	sym,
-repeat 
-InPx98
-{
-	char[11
-
-    ]
-Qty
-, Heartbeat
-, char[] price
-    ,
-
-    u32
-x	,
-    float64
-	count
-
-    , repeat
-    Quote
-    ,  }, zchar[
-
-7 ]
-	Note, repeat char[
-
-    1
+    tag { zchar[	1 
 ]
-	Tail , } ,	repeat 
-char[
-    2 ]	seqNo 
-, 
-InTail55  {repeat	Quote 
-, string msgKind
-,
-    InPx18  { char[] count
+
+repeatCount  ,Header
+rootA
 
     ,
-repeat Quote
-, uint16
-Qty ,  }
 
+zchar[// " ++ [128512]%N ++ runes_of_ascii " emoji
+    3 
+]
+string_ `two words` 
 ,
-    char[
-4 ] seqNo
-    , 
-repeat 
-Heartbeat
-
-, repeat
-
-    string 
-sym, }
-, repeat Quote
-,
-    Heartbeat,
-
-@leftPad
-    ( 
-' ' ) char[ 
-10
-
-] OrderId
-
-    ,	}
-    root packet	Fill
-{ 
-Heartbeat  ,
-	uint32
-	count
-,
-
-    u8  OrderId , match	OrderId
-
-as Body
-{96
-: 
-Quote, 195:	Trade  , 187
-
-:Heartbeat  ,
-
-} , u32
-venue
-    @calculatedFrom( 
-""CRC32"")
-
-,
-}
-")).
-Eval vm_compute in ("<<<M569>>>" ++ check (runes_of_ascii "root packet//	t
-string_
-{ @lengthOf(
-    // trailing space 
-    matchKey
-    ) repeat string_ matchKey , char[
-007 ] i64_
-    @calculatedFrom(""packet"" ),
-@tag(
-255)
-stringy
-    len
-, @leftPad (
-    '\x00')  i8 matchKey
-, match options1 as As {0123456789 : x
-    , 10 : u8x ,[4294967296 // `tick` ""quote"" 'q'
-] :rootA ,
-65535 : charz ,
-3	:
-int} , } root packet u8x
-{ int16  x_y_z,// trailing space 
-@calculatedFrom(/// triple
-""abc"" // trailing space 
-) @leftPad (
-' ' ) @tag(  3 ) match Packet  as leftPad /// triple
-{ ""// no comment"" : float	,} , repeat
-    string_ Packet , string zchar
-,
-    /// triple
-    Packet `
-` ,  float {int8 rootA @lengthOf(
-    // packet A { u8 x, }
-    x_y_z
-    ) ,
-    // " ++ [128512]%N ++ runes_of_ascii " emoji
-    }, Header @lengthOf( stringy
-    //	t
-    )
-,
-    // @lengthOf(
-    string /// triple
-Logon @calculatedFrom(""// no comment"" ), }MetaData
-// @lengthOf(
-// `tick` ""quote"" 'q'
-options1 {Foo stringy `" ++ [28040; 24687; 31867; 22411]%N ++ runes_of_ascii "` , Packet i64_ `a\`
-, char[
-4294967296 ] lengthOf , char[]
-_x , i64 Packet , zchar[
-    255] x
-, }
-")).
-Eval vm_compute in ("<<<M4348>>>" ++ check (runes_of_ascii "
-
-  packet
-    Pad	// " ++ [27880; 37322]%N ++ runes_of_ascii "
-{ @tag( 65535
-
-)
-
-repeat
-    char[ 
-      //	t
-	4294967296] o
-`u8 x,`
-, @calculatedFrom( ""x y"" ) metadata  // c
-
-@lengthOf(
-
-    repeatCount )`tab	here`
+int8 _x, char[  
+      // " ++ [27880; 37322]%N ++ runes_of_ascii "
+  /// triple
+  0123456789]
+    zchar
+	`
+`
+	,  zchar[ 4294967296]
+// " ++ [27880; 37322]%N ++ runes_of_ascii "
+    a1
+``
 ,}
-	packet
-    u128
+	root packet// " ++ [27880; 37322]%N ++ runes_of_ascii "
+    Pad {  @lengthOf(	As  )
 
-{
-// packet A { u8 x, }
-		// " ++ [128512]%N ++ runes_of_ascii " emoji
-	repeat	// " ++ [128512]%N ++ runes_of_ascii " emoji
-  zchar[
-10
-] _x // " ++ [27880; 37322]%N ++ runes_of_ascii "
-,  /// triple
-  } 
-options {	/// triple
-	msg_type	=
-true; }	packet
-	tag
+BodyLength	{  char[]a1 @lengthOf(Pad)
+	,
 
-{ 	 // c
-  @tag(  7
-	)  i32 
-f32a@lengthOf(u8x 
-) `two words` ,string
-	Foo 
-@lengthOf(Foo
-)
-    , @rightPad
-('0' )  match 
-As as
-    // @lengthOf(
-    // `tick` ""quote"" 'q'
-  crc  // a // b
-    {  """" :
-    float
-, //	t
-		}
-, 
-repeat
-	i16 
-i8i8 , @rightPad /// triple
-(
-'0' 
-) 
-repeat
-    u128{ i64  tag
-@calculatedFrom(
-	""" ++ [28040; 24687]%N ++ runes_of_ascii """
-)  ,
+char[] BodyLength `doc` // @lengthOf(
+	  , }
 
-    i8i8
-
-    @calculatedFrom(// " ++ [27880; 37322]%N ++ runes_of_ascii "
-	""{,}"" )
-	`it's`,repeat string
-
-rootA 	 /// triple
-	, } ,  repeat
-
-    string chars ,
-asx	,
-match
-
-calculatedFrom
+,match	options1
 
 as
-calculatedFrom
-	{	""a\""b""
-:
-    Logon ""a	b"":asx  }
 
-,char zchar  @calculatedFrom( ""1""
-	)`say ""hi""` ,
-    }
-")).
-Eval vm_compute in ("<<<M712>>>" ++ check (runes_of_ascii "root packet //
-Pad {
-    char[
+packetx{ ""\n""  :
+    i8i8
+	,  [
+""CRC32"" ,
+	//	t
+  	10
+	, 	 //	t
+    ""1""
+, 
+65535
+	]
+    // @lengthOf(
+	// " ++ [27880; 37322]%N ++ runes_of_ascii "
+  :  matchKey
 00
-]
-stringy @calculatedFrom( ""\" ++ [233]%N ++ runes_of_ascii """ ) `it's`,zchar{
-falsey
-Header // @lengthOf(
-`two words` , Packet
-@lengthOf( int ) `` ,charz
-asx , u32 A , }	, string
-    metadata, repeat
-char[
-1 ]	crc`
-`
-, Foo `it's` ,}packet
-    // c
-    rootA
-    { repeat
-    i32 matchKey , repeat x_y_z `// not a comment`, roots
-    @calculatedFrom(
-""\n"" ),
-x_y_z {
-    zchar[ 42]
-// packet A { u8 x, }
-// " ++ [27880; 37322]%N ++ runes_of_ascii "
-charz@lengthOf( u128 ) // " ++ [128512]%N ++ runes_of_ascii " emoji
-, leftPad`line1
-line2` ,}
-, falsey crc`crlf
-line`,
-    repeat
-// " ++ [128512]%N ++ runes_of_ascii " emoji
-// c
-char
-i64_ `a\` , }
-    packet Packet { repeat //	t
-i64_{ repeat metadata  { repeatCount `{ , }`,  int16// c
-o , },
-    //	t
-    repeat uint64	A , float @calculatedFrom(
-""a\""b""
-    )
-, zchar[	7 ]
-T , }
-, @leftPad
-( '\x00')
-    repeatCount	`a\` , } MetaData o // " ++ [27880; 37322]%N ++ runes_of_ascii "
-{
-    // a // b
-    int
-// packet A { u8 x, }
-// @lengthOf(
-repeatCount`line1
-line2` ,} options	{ msg_type
-=
-00//x
-}")).
-Eval vm_compute in ("<<<M256>>>" ++ check (runes_of_ascii "packet
-Pad // " ++ [27880; 37322]%N ++ runes_of_ascii "
-{ @tag(	65535 )repeat char[
-    //	t
-    4294967296 ] o
-    `u8 x,`  ,
-@calculatedFrom(""x y"" )
-metadata // c
-@lengthOf(repeatCount )`tab	here`	,} packet u128 {
-// packet A { u8 x, }
-// " ++ [128512]%N ++ runes_of_ascii " emoji
-repeat // " ++ [128512]%N ++ runes_of_ascii " emoji
-zchar[
-10 ]_x// " ++ [27880; 37322]%N ++ runes_of_ascii "
-, /// triple
-}
-options
-{ /// triple
+
+: 
+uint8x,  3
+:
+
+repeatCount,  ""\n""	:
+
+    tag 
+    // packet A { u8 x, }
+	, 	 // a // b
+    ""x y""
+	://
+		u8x
+} , @lengthOf(calculatedFrom  ) 
 msg_type
-= true ;}packet tag {// c
-@tag(7 ) i32
-f32a @lengthOf( u8x)
-`two words`
-,
-string
-Foo  @lengthOf( Foo ) ,
-@rightPad(
-'0' ) match As as
-// @lengthOf(
-// `tick` ""quote"" 'q'
-crc // a // b
-{"""": float , //	t
-} , repeat i16 i8i8 , @rightPad/// triple
-(
-    '0' ) repeat u128
-    { i64 tag
-@calculatedFrom( """ ++ [28040; 24687]%N ++ runes_of_ascii """ ) ,i8i8
-@calculatedFrom( // " ++ [27880; 37322]%N ++ runes_of_ascii "
-""{,}""
-)`it's` , repeat string
-    rootA /// triple
-, }, repeat string
-chars,
-    asx, match calculatedFrom as
-calculatedFrom {
-    ""a\""b"" :  Logon ""a	b"" : asx } , char zchar @calculatedFrom( ""1""
-    )
-    `say ""hi""`
-    ,  }
-")).
-Eval vm_compute in ("<<<M4120>>>" ++ check (runes_of_ascii "packet u8x {
-    @tag(0)
-    match Header as packetx {
-        ""\n"" : o,
-        0 : Foo,
-        4294967296 : rootA,
-        255 : i8i8,
-    },// `tick` ""quote"" 'q'
-    repeat uint8 stringy,
-    chars,
-    uint64 options1 `say ""hi""`,
-    @lengthOf(float)
-    string leftPad,
-    x body `line1
-        line2`,
-    @calculatedFrom(""// no comment"")
-    uint16 chars @calculatedFrom(""`tick`""),
+body// " ++ [128512]%N ++ runes_of_ascii " emoji
+,	}
+options {
+
+// " ++ [27880; 37322]%N ++ runes_of_ascii "
+	  // a // b
+T 
+//x
+  	// @lengthOf(
+	= 10  ; T
+=u16
+
+;
+    }
+packet stringy  // trailing space 
+    { 
+} ")).
+Eval vm_compute in ("<<<M4040>>>" ++ check (runes_of_ascii "packet o {
+    /// triple
 }
 
-packet Header {
-    @calculatedFrom(""\" ++ [233]%N ++ runes_of_ascii """)
-    zchar[007] As @lengthOf(Header),
-    Header @lengthOf(leftPad) `doc`,
-    repeat zchar calculatedFrom,
-    @lengthOf(float)
-    zchar[0123456789] trueish ``,
-    match x as string_ {
-        [255] : A,
-        ""abc"" : Packet,
-        [10, ""`tick`""] : Pad,
+packet Pad {
+    repeat f32 metadata `two words`,
+    repeat charz {
+        i32 i64_ @calculatedFrom(""\" ++ [233]%N ++ runes_of_ascii """) `u8 x,`,
+        repeat uint8x tag,
+        uint16 Packet @calculatedFrom(""a	b"") `u8 x,`,
     },
 }
 
-packet len {
-    // " ++ [128512]%N ++ runes_of_ascii " emoji
-    i8i8 body,
-}
-
-MetaData x {
-    float32 Header,
-    uint8 A,
-    i8i8 o,
-}")).
-Eval vm_compute in ("<<<M587>>>" ++ check (runes_of_ascii "
-packet _x{ metadata
-    @lengthOf( i64_ ) , match trueish as
-int {
-    ["""" ,  255
-    ] :
-//
-// packet A { u8 x, }
-T , 65535:zchar ,// c
-} , @calculatedFrom(
-    ""a\""b"")	match leftPad as// a // b
-len{ ""x y""
-: Z9_ ,[ 0 ,
-007 , ""x y"" ] :
-    falsey
-    //	t
-    , } , }
-    root packet
-As{
-string int , @tag(
-    255 )@lengthOf( roots )
-@calculatedFrom( """ ++ [128512]%N ++ runes_of_ascii """
-    // @lengthOf(
-    ) repeat crc
-{ repeat char trueish , // " ++ [128512]%N ++ runes_of_ascii " emoji
-}
-,
-    zchar[4294967296 ] options1@calculatedFrom( ""CRC32"" )
-,match packetx as
-lengthOf
-{ ""a\""b"" :
-options1 ,
-0123456789  : Foo, ""a\\"" : trueish
-,3  : string_,""\n"" : zchar
-, [	65535 ] : u128
-    } ,  @tag( 42) @leftPad
-    //x
-    (
-// `tick` ""quote"" 'q'
-// `tick` ""quote"" 'q'
-'\x00' ) i16
-crc , }packet lengthOf // trailing space 
-{ }")).
-Eval vm_compute in ("<<<M775>>>" ++ check (runes_of_ascii "
-MetaData tag { zchar[
-1] repeatCount
-    , Header
-rootA ,zchar[ // " ++ [128512]%N ++ runes_of_ascii " emoji
-3] string_ `two words`
-, int8 _x
-    ,
-    char[
-// " ++ [27880; 37322]%N ++ runes_of_ascii "
-/// triple
-0123456789 ] zchar`
-` ,zchar[  4294967296 ]
-    // " ++ [27880; 37322]%N ++ runes_of_ascii "
-    a1 `` , } root
-packet // " ++ [27880; 37322]%N ++ runes_of_ascii "
-Pad {@lengthOf( As)
-BodyLength { char[] a1 @lengthOf(	Pad ) ,char[]	BodyLength `doc`// @lengthOf(
-, }
-,  match options1
-as	packetx { ""\n"" : i8i8 ,[
-""CRC32"",
-    //	t
-    10 ,//	t
-""1"",
-65535 ]
-// @lengthOf(
-// " ++ [27880; 37322]%N ++ runes_of_ascii "
-: matchKey 00 :  uint8x,
-    3 :repeatCount,  ""\n"" :
-tag
-    // packet A { u8 x, }
-    , // a // b
-""x y"" : //
-u8x } , @lengthOf( calculatedFrom
-    )	msg_type body // " ++ [128512]%N ++ runes_of_ascii " emoji
-, }
-    options {
-// " ++ [27880; 37322]%N ++ runes_of_ascii "
-// a // b
-T
-//x
-// @lengthOf(
-=
-10 ;T = u16	;}packet stringy // trailing space 
-{	}
-")).
-Eval vm_compute in ("<<<M442>>>" ++ check (runes_of_ascii "
-packet tag {
-float32 repeatCount @calculatedFrom( ""// no comment"") ,}
-    packet i64_{
-char[00 ] calculatedFrom ,// " ++ [128512]%N ++ runes_of_ascii " emoji
-@calculatedFrom( ""packet"" ) i16  Packet ,
-    falsey
-    { char[]
-    // c
-    calculatedFrom @lengthOf( stringy )
+packet metadata {
+    @leftPad()
+    repeat f32 i64_,
     // `tick` ""quote"" 'q'
-    `` ,}//
-, repeat i32 matchKey , repeat char[ 7
-    ]/// triple
-tag`// not a comment` ,leftPad
-{// @lengthOf(
-char[]
-    i8i8 , }
-,  @lengthOf(x_y_z) char[ 3 ] matchKey ``  ,float { char[] chars, repeat
-    zchar[  1 ]x_y_z ,
-} , i8 x_y_z
-//	t
-//
-,
-string asx //
-,} root packet
-int{  chars @lengthOf(
-    Foo	)
-`a\`,  repeat
-    char[ 0123456789
-]
-    BodyLength , i8 T
-    , @rightPad
-(
-    ) u64 lengthOf	, }
-")).
-Eval vm_compute in ("<<<M3915>>>" ++ check (runes_of_ascii "
-packet
-	float
+    f32a @calculatedFrom(""x y""),
+    repeat zchar[007] body,
+    @rightPad('\x00')
+    string MetaDataX @lengthOf(options1),
+    @tag(3)
+    match _x as lengthOf {
+        ""`tick`"" : body,
+    },
+    @calculatedFrom(""`tick`"")
+    i64 options1 @calculatedFrom(""abc"") `" ++ [28040; 24687; 31867; 22411]%N ++ runes_of_ascii "`,
+    i8 As,
+    rootA @lengthOf(lengthOf),
+    // " ++ [27880; 37322]%N ++ runes_of_ascii "
+    // " ++ [27880; 37322]%N ++ runes_of_ascii "
+}
+
+MetaData body {
+    int16 len `line1
+    line2`,
+    uint16 stringy,
+    uint64 falsey `{ , }`,
+    len len,
+}// " ++ [128512]%N ++ runes_of_ascii " emoji")).
+Eval vm_compute in ("<<<M4298>>>" ++ check (runes_of_ascii "
+packet  Header
 {
+	repeat string  Header ,
+    repeat  options1 ,
+    zchar[ 
+        //	t
 
-    @leftPad ( ' ' 
-)repeat 
-metadata falsey
-    ,
-lengthOf
-    matchKey
-,int32
-	roots, 
-int16 Pad  @calculatedFrom(// " ++ [128512]%N ++ runes_of_ascii " emoji
-	  ""\" ++ [233]%N ++ runes_of_ascii """
-    )  , // a // b
+00
 
-	lengthOf @calculatedFrom( ""`tick`"") // c
-    `" ++ [28040; 24687; 31867; 22411]%N ++ runes_of_ascii "`  ,@lengthOf(
-metadata
-) 
+    ]
+    matchKey 
+,
+    }
+    options 
+	// @lengthOf(
+	  // `tick` ""quote"" 'q'
+	{
+    charz =
+    ""\n"" ;// a // b
+BodyLength =
+
+""x y""  u8x
+
+    =	""x y""u	// `tick` ""quote"" 'q'
+=
+
+255
+
+}	MetaData u8x { 
+        // a // b
+      // c
+    Z9_
+
 i8i8
-,@rightPad	( 
-    // packet A { u8 x, }
-    	//	t
-  '0')
+    ,  float32
 
-    Foo
+    stringy
 
-    , 
-    // trailing space 
-	  @tag(
-	10  //
+,  float
+    msg_type	// `tick` ""quote"" 'q'
 
-  )
-    chars
-`
-`
-	,
-@tag( 7 )
-    // " ++ [128512]%N ++ runes_of_ascii " emoji
-  @leftPad () repeat zchar[ 255]
-u128
-
-,  // c
-  } options  {  //	t
-	msg_type  = 0
-; // @lengthOf(
-    u
-    =	' '
-x_y_z =
-
-    65535  u128	// packet A { u8 x, }
-	=
-char[]
-
-;zchar
-
-= zchar[	3  ]
-    ;
-
-    }")).
-Eval vm_compute in ("<<<M3742>>>" ++ check (runes_of_ascii "packet
-
-A { Logon	// @lengthOf(
-o	,u8x
-    {	// @lengthOf(
-      asx// " ++ [27880; 37322]%N ++ runes_of_ascii "
-    chars  ,	} 
-,
-
-    x	o 
-,
-    @leftPad()// trailing space 
-
-As 
-// c
-	//x
-@lengthOf(u
-
-), } MetaData
-
-f32a
-
-{
-crc Logon,  }root
+	`doc` , calculatedFrom  T  , Foo T
+`a\` ,} 
+root
 
     packet
-
-    u128 {
-	stringy
-
-Logon// " ++ [128512]%N ++ runes_of_ascii " emoji
-	`a\`
-, 
-@calculatedFrom( 	 // c
-""1"" 
-)@leftPad 
-  // a // b
-  (
-
-'\x00'
-	)	@tag(
-
-    255
-)	int64
-
-stringy@lengthOf(
-    lengthOf//	t
-	)
-`line1
-line2`
-
-    ,
-
-    rootA 
-`
-`
-
-,
-@calculatedFrom(	""a	b"")	// packet A { u8 x, }
-    o
-@calculatedFrom(
-    ""`tick`""
-)	// @lengthOf(
-  `a\`	,
-    repeatCount  @lengthOf(T 
-)// @lengthOf(
-    ,	}
-")).
-Eval vm_compute in ("<<<M101>>>" ++ check (runes_of_ascii "
-root
-packet Packet
-{ char[0123456789 ] pack @lengthOf(
-As ) `{ , }`,
-repeat
-    // `tick` ""quote"" 'q'
-    string
-    rootA ,	match
-repeatCount
-    as
-    pack /// triple
-{ ""a\""b""
-    :uint8x// packet A { u8 x, }
-[ ""x y"" ,
-    ""it's""
-    // " ++ [128512]%N ++ runes_of_ascii " emoji
-    ]	: chars
-    ""\" ++ [233]%N ++ runes_of_ascii """
-: //	t
-crc	0123456789 :Packet ,[""1""
-]:	A ,
-    // @lengthOf(
-    } ,// `tick` ""quote"" 'q'
-} options /// triple
-{ }packet pack // trailing space 
-{ i8//x
-MetaDataX ,string float
-`" ++ [28040; 24687; 31867; 22411]%N ++ runes_of_ascii "`,@lengthOf( trueish)
-@calculatedFrom(
-    ""`tick`"" ) f64 lengthOf ,repeat pack	packetx
-// trailing space 
-// packet A { u8 x, }
-, }
-")).
-Eval vm_compute in ("<<<M1130>>>" ++ check (runes_of_ascii "root packet Foo {u64 calculatedFrom @lengthOf( u ) , u16
-len ,
-match metadata as
-a1{
-// `tick` ""quote"" 'q'
-// " ++ [27880; 37322]%N ++ runes_of_ascii "
-255 :roots
-,
-10: i8i8
-    [ // a // b
-00
-] :i8i8, [
-    ""abc""  ] :
-    Header
-,
-[
-    // packet A { u8 x, }
-    00 ] // packet A { u8 x, }
-: x , ""abc"" :
-Logon } , @leftPad(
-    '0') // " ++ [27880; 37322]%N ++ runes_of_ascii "
-Pad{  zchar[ 10] asx `{ , }`, Header@calculatedFrom(
-""a\\"" ) , repeat T
-,
-int16	roots `// not a comment`,  } ,	}packet o { @tag( 00
-) @leftPad ( '\x00'
-// `tick` ""quote"" 'q'
-//x
-) Z9_
-//	t
-//
-@calculatedFrom( ""CRC32"" ) ,@lengthOf(	crc
-//x
-//
-)
-    zchar
-, }
-")).
-Eval vm_compute in ("<<<M1017>>>" ++ check (runes_of_ascii "packet
-f32a {	roots
-{chars  calculatedFrom,
-u16 Header`" ++ [233]%N ++ runes_of_ascii "`
-/// triple
-// packet A { u8 x, }
-,char[] repeatCount , //	t
-} , @calculatedFrom( ""x y"" )
-    i32 crc
-@calculatedFrom(
-""x y"" ),repeat uint64 lengthOf
-    ,repeat char[
-    65535]  u
-, @lengthOf(
-tag)
-// trailing space 
-//
-@lengthOf( pack) @calculatedFrom(  ""packet"" ) // packet A { u8 x, }
-match A as
-f32a
+roots
     {
-// trailing space 
-// c
-""`tick`""
+@tag(	00 
+) /// triple
+    	match	// `tick` ""quote"" 'q'
+	len
+as
+roots 
+{ 
+
+// @lengthOf(
+
+  [ 4294967296
+
+]
+
 :
-    i8i8 ,
-    }
-, @tag(
-0123456789
-    ) repeat repeatCount
-crc  ,
-    repeat	u32  options1
-`a\` , }  options { matchKey ='0' ;	}")).
-Eval vm_compute in ("<<<M391>>>" ++ check (runes_of_ascii "// " ++ [128512]%N ++ runes_of_ascii " emoji
-packet o {
-char[
-    // `tick` ""quote"" 'q'
-    4294967296 ]	tag ,@tag(	1
-    // a // b
-    )	zchar[ //
-0123456789]
-Logon ,stringy `it's`	, repeat string Logon
-, repeat
-f32 string_
-    //x
-    `u8 x,` ,
-@lengthOf( roots
-) A `" ++ [233]%N ++ runes_of_ascii "`
-    ,string_ ,
-@lengthOf( //	t
-i64_ ) @calculatedFrom(
-    ""1"" ) //	t
-f32a @lengthOf(
-f32a
+	tag
+
+""// no comment""
+:
+
+    float
+	, 
+"""" :uint8x
+, 
+	    // " ++ [27880; 37322]%N ++ runes_of_ascii "
+
+	// trailing space 
+007 
+// " ++ [27880; 37322]%N ++ runes_of_ascii "
+    	:
+    options1
+    ,
+	} ,
+}
+
+")).
+Eval vm_compute in ("<<<M3766>>>" ++ check (runes_of_ascii "options
+{
+options1
+
+    =
+0	}
+    packet 
+_x
+{ @tag( 3  
+      // trailing space 
+    ) @lengthOf( packetx
 )
-    `doc`
+repeat
+zchar[ 255
+	]roots
+, 
+}
+    packet
+Logon
+{
+f64
+float,
+	matchKey, 
+f32a 	 //
+  	Pad `" ++ [233]%N ++ runes_of_ascii "`
+
+, 
+      // `tick` ""quote"" 'q'
+      @calculatedFrom( ""packet"")	match
+    u128
+    as  Pad{ [ 	 // " ++ [27880; 37322]%N ++ runes_of_ascii "
+00 ,
+""CRC32"" ]:msg_type
+
+    65535
+    :
+	stringy,  [ ""abc""//	t
+	,
+    00
+    ,
+""" ++ [233]%N ++ runes_of_ascii "t" ++ [233]%N ++ runes_of_ascii """
 ,
-    // `tick` ""quote"" 'q'
+""// no comment""
+, 	 // trailing space 
+0
+
+, ""// no comment"",
+
+""1""]
+    : matchKey [
+    ""it's"" 
+, 0 ]  :
+A},zchar[
+    3] 	 //x
+
+  uint8x
+    ,
+}  options
+
+{_x =' 'rootA = 	 //x
+	char[]
+    uint8x=  //	t
+""a	b""
+    ;body =
+    char[]
+        // trailing space 
+} root packet
+    len {
+
+    }
+
+")).
+Eval vm_compute in ("<<<M420>>>" ++ check (runes_of_ascii "MetaData // `tick` ""quote"" 'q'
+uint8x { char[// `tick` ""quote"" 'q'
+7 ] Foo ,	float64
+//x
+/// triple
+repeatCount
+,/// triple
+a1 uint8x `// not a comment` , }
+    packet
+Header{	@calculatedFrom( ""packet""  ) repeat calculatedFrom charz , } packet rootA { @calculatedFrom(""abc"") @calculatedFrom( """"	)	@lengthOf( // " ++ [128512]%N ++ runes_of_ascii " emoji
+asx)
+repeat
+    repeatCount,
+repeat// " ++ [128512]%N ++ runes_of_ascii " emoji
+o {
+crc options1
+//x
+// " ++ [128512]%N ++ runes_of_ascii " emoji
+, zchar[
+7] A	, Z9_	@lengthOf(Pad
+) ,
+calculatedFrom
+    // trailing space 
     @calculatedFrom(
-""" ++ [28040; 24687]%N ++ runes_of_ascii """ )repeatCount `a\` ,}
-    /// triple
-    root
-packet //
-As { @tag( //
-0) char[] o`it's`
-,
-}packet matchKey{ }")).
-Eval vm_compute in ("<<<M880>>>" ++ check (runes_of_ascii "packet
-crc
-    {
-@leftPad ( ' ' ) u64 packetx @lengthOf(trueish ) ,
-float
+""a\""b"" ) // packet A { u8 x, }
+, } , repeat a1 Foo `{ , }` ,
+    charz , } options { body=
+    """ ++ [28040; 24687]%N ++ runes_of_ascii """  ;
+packetx // a // b
+=
+    0 }
+MetaData _x // @lengthOf(
+{ int16 crc, }")).
+Eval vm_compute in ("<<<M740>>>" ++ check (runes_of_ascii "
+packet msg_type{ repeat
+i64 MetaDataX
+`line1
+line2` // trailing space 
+,  repeat char[] //
+u128 ,
+@tag(
+42
+    ) // @lengthOf(
+@lengthOf( u )
+@lengthOf( body )repeat
+zchar[ 255
+    //
+    ]
+// `tick` ""quote"" 'q'
+// trailing space 
+As	,calculatedFrom
+    //x
+    f32a
+    // trailing space 
+    ,}
+options
+{// @lengthOf(
+x
+    =  3 msg_type = ""`tick`"" falsey= ""CRC32""
+    ;
+    // trailing space 
+    body=
+    char[ 00] ; uint8x  = ""x y"" } options// @lengthOf(
+{//
+A
+    =
+    uint16
+}root packet BodyLength { @lengthOf( pack )
+    repeat
+    metadata T
+`{ , }`
+// packet A { u8 x, }
+//	t
+,}packet chars{ }
+// packet A { u8 x, }
+")).
+Eval vm_compute in ("<<<M4411>>>" ++ check (runes_of_ascii "//x
+packet _x {
+    repeat charz {
+        repeat asx,//x
+        string metadata,//x
+        uint64 a1 @calculatedFrom(""it's"") `a\`,
+    },
+    @rightPad()
+    msg_type len ``,
+    MetaDataX asx,
+    @rightPad('\x00')
+    zchar[3] int,
+}
+
+packet Packet {
+    @leftPad()
+    string_ {
+        repeat calculatedFrom `it's`,
+    },
+    @calculatedFrom(""a	b"")
+    @tag(00)
+    @rightPad(' ')
+    u64 stringy @calculatedFrom(""a	b""),
+    @leftPad('\x00')
+    options1 `" ++ [233]%N ++ runes_of_ascii "`,
+    @rightPad()
+    repeat char[007] Foo `line1
+        line2`,
+}
+
+options {
+    len = '\x00';
+    roots = ""{,}""
+    packetx = i64;
+}")).
+Eval vm_compute in ("<<<M1013>>>" ++ check (runes_of_ascii "options { int =
+""`tick`"" ; Foo  =' '	; Foo =
+""x y"" ; x_y_z	= ""x y""
+    //	t
+    ;}packet uint8x { @lengthOf( int
+// `tick` ""quote"" 'q'
+// trailing space 
+)
+@tag( 0 )
+    Pad // `tick` ""quote"" 'q'
+,u8 x ,	@lengthOf(Z9_ )
+    f32 BodyLength
+    `crlf
+line` ,repeat
+char[255
+] f32a
+    ,  repeat msg_type
+lengthOf,
+@leftPad ('\x00'
+) repeat int32
+asx,
+    repeat string f32a //x
+, // `tick` ""quote"" 'q'
+} MetaData packetx { int64 asx , Foo
+len`// not a comment` , i32
+MetaDataX `" ++ [233]%N ++ runes_of_ascii "`
+    ,
+    Foo
+Header
 `line1
 line2` ,
-// packet A { u8 x, }
-// trailing space 
-}packet
-msg_type{zchar[ 3 ]i8i8
-@lengthOf( u )	,char[] roots , match x_y_z as
-uint8x
-{ ""a	b"":body	, } /// triple
-,
-@tag(
-42 )	@rightPad
-// `tick` ""quote"" 'q'
-//x
-(
-'0'	) Packet
+    zchar[ 0123456789
+] lengthOf ,	float32 metadata , }")).
+Eval vm_compute in ("<<<M1045>>>" ++ check (runes_of_ascii "MetaData pack
+{} // trailing space 
+MetaData
+    u { zchar[
+    7 ] lengthOf `say ""hi""`
+    , }packet // trailing space 
+metadata {
+    @leftPad ()
+    stringy chars ,
+    repeat
+    int {
+uint8  A , zchar[ 4294967296]Packet @lengthOf( x
+)`
+`
+    ,
+repeat
+    crc zchar , }
 // " ++ [128512]%N ++ runes_of_ascii " emoji
-// packet A { u8 x, }
-@calculatedFrom( ""1"" // c
-) `
-`,@lengthOf(  MetaDataX ) i32 // `tick` ""quote"" 'q'
-trueish,
-@rightPad ( ' '  )
-    u128
-@lengthOf( _x )  , }")).
-Eval vm_compute in ("<<<M3710>>>" ++ check (runes_of_ascii "MetaData a1 {
-    f64 int,
-    i32 o `two words`,
-    char[3] lengthOf,
-    zchar[7] Header,
-    u32 x_y_z,
-    char[3] matchKey,
-}
-
-packet falsey {
-    @lengthOf(i8i8)
-    match MetaDataX as calculatedFrom {
-        00 : float,
-        // " ++ [27880; 37322]%N ++ runes_of_ascii "
-        7 : MetaDataX,
-        """ ++ [28040; 24687]%N ++ runes_of_ascii """ : options1,
-        [""a\\""] : charz,
-    },
-    match T as Z9_ {
-        [""it's""] : falsey,
-        255 : Foo,
-        ""a\\"" : Header,
-    },
-}
-
-MetaData lengthOf {
-    As rootA `doc`,
-}")).
-Eval vm_compute in ("<<<M790>>>" ++ check (runes_of_ascii "
-options { } options {a1
-= ' ' falsey
-=
-    //	t
-    false ; f32a =10 ;
-    // packet A { u8 x, }
-    } packet u8x
-    { repeat BodyLength	{ calculatedFrom// " ++ [128512]%N ++ runes_of_ascii " emoji
-@calculatedFrom( ""{,}"" ) `{ , }` , uint8
-MetaDataX `say ""hi""` // `tick` ""quote"" 'q'
-,
-    },}
-MetaData matchKey
-    {
-i8 roots
-    `
-` ,
-i64	rootA`say ""hi""` ,/// triple
-f64
-chars
-    //x
-    `" ++ [28040; 24687; 31867; 22411]%N ++ runes_of_ascii "` , zchar[ 3
-// packet A { u8 x, }
-//
-] asx `" ++ [233]%N ++ runes_of_ascii "` // a // b
-,
-string msg_type	, }
-")).
-Eval vm_compute in ("<<<M43>>>" ++ check (runes_of_ascii "
-packet A
-{ repeat lengthOf {
-len ,
-    } , @tag(// trailing space 
-42	) match Header
-    as falsey
-{ [
-""" ++ [128512]%N ++ runes_of_ascii """//
-, ""\n"", 4294967296 ]
-    : Packet
-1 :	falsey,
-""\" ++ [233]%N ++ runes_of_ascii """ // " ++ [128512]%N ++ runes_of_ascii " emoji
-:
-    charz } , zchar[255
-]
-// packet A { u8 x, }
-// trailing space 
-rootA , repeat  char[ 10 ]// `tick` ""quote"" 'q'
-f32a
-// trailing space 
 //x
-,@calculatedFrom(  ""// no comment"") char[ 00 ]trueish@calculatedFrom(
-    // " ++ [27880; 37322]%N ++ runes_of_ascii "
-    ""a\""b"" )`line1
-line2` ,}")).
-Eval vm_compute in ("<<<M4267>>>" ++ check (runes_of_ascii "root
+, repeat options1 { u16 u
+, string_ { string_
+    MetaDataX,repeat char[	0123456789
+]  uint8x ,
+repeat uint32 T ,
+// packet A { u8 x, }
+//x
+}, uint16 packetx , }
+// packet A { u8 x, }
+// `tick` ""quote"" 'q'
+, @leftPad (
+' ' ) rootA `crlf
+line` ,}
+// " ++ [27880; 37322]%N ++ runes_of_ascii "
+")).
+Eval vm_compute in ("<<<M3679>>>" ++ check (runes_of_ascii "
+root
 
-    packet
-x	{  @calculatedFrom(
-    ""a\\""
-)
+packet string_{
+    @tag( 65535	)	u8	u8x
+
+    @calculatedFrom( ""it's"" // packet A { u8 x, }
+  )
+
+    , 
 zchar[ 
-42 
-] float
-	@calculatedFrom(
-""a\""b""
-)
-`
-`  , }
-	MetaData
-o
-
-{	int8
-BodyLength , string	len ,	string
-len 
-,float  falsey,	T  float
-
-    ,
-    }MetaData pack
-	{/// triple
-charz
-
-o`// not a comment`
-
-,	float64
-f32a
-
-`tab	here`
-
-,
-	int32 u8x
-`// not a comment`
-    ,
-
-char[
-
-    10]
-	a1  ,
-
-float32
-
-options1 
-,
-	} 	 // `tick` ""quote"" 'q'
- 
-")).
-Eval vm_compute in ("<<<M971>>>" ++ check (runes_of_ascii "packet A { tag T
-`u8 x,`
-//
-// `tick` ""quote"" 'q'
-, @calculatedFrom( ""a\\"" )match Header as charz
-    {
-    1 : Z9_ , 65535 :  falsey ,
-    // " ++ [128512]%N ++ runes_of_ascii " emoji
-    ""it's"" :
-trueish ,
-    ""x y"": stringy ,
-""x y"" :
-falsey ,  } ,
-float uint8x  , } options {trueish =
-    char[] ;}
-    MetaData
-i64_ { stringy
-roots
-`a\` ,	zchar[ 4294967296 ] repeatCount , }
-MetaData body {  u8x
-    int
-, a1 f32a , }
-")).
-Eval vm_compute in ("<<<M98>>>" ++ check (runes_of_ascii "packet// a // b
-stringy  {
-    Logon { match
-    string_ as
-    i64_
-{ ""x y"":
-string_
-    ,
-// " ++ [27880; 37322]%N ++ runes_of_ascii "
-// `tick` ""quote"" 'q'
-""`tick`"" : string_
-,  1// " ++ [27880; 37322]%N ++ runes_of_ascii "
-:
-/// triple
-// c
-float , [ ""1""
-    ] :
-options1
+10
     // " ++ [27880; 37322]%N ++ runes_of_ascii "
-    ,} , zchar[1 ] crc@calculatedFrom( """") `two words` , f32a , float32 lengthOf ,
-}
-, @tag(255) u8x @calculatedFrom( // packet A { u8 x, }
-""abc""
-) `a\` , }
-")).
-Eval vm_compute in ("<<<M4414>>>" ++ check (runes_of_ascii "
-// top
-  root	// c0
-    packet// c1
-  matchKey// c2
-{	// c3
-  	zchar[  // c4
-  3  // c5
-]	// c6
-	pack // c7
-    @calculatedFrom(	// c8
-  	""a	b""  // c9
-	) 	 // c10
-  `doc`	// c11
-  , 	 // c12
-  }  // c13
-options// c14
+		//
+  ]
 
-	{// c15
-    }  // c16
-MetaData	// c17
-A  // c18
-  {  // c19
+    pack,
+	string  f32a ,
+	Pad
 
-int8 	 // c20
-    	msg_type	// c21
-      ,  // c22
-	  }	// c23
-")).
-Eval vm_compute in ("<<<M387>>>" ++ check (runes_of_ascii "packet
-    // @lengthOf(
-    x
-{ int8// packet A { u8 x, }
-T
-, }
-options	{
-    } packet Z9_
-{
-@lengthOf(
-    //	t
-    A
-    ) As
-@calculatedFrom(
-""x y"" )	,
-} MetaData
-//
-// " ++ [128512]%N ++ runes_of_ascii " emoji
-Logon
-    {
-//x
-//x
-pack
-    trueish
-, /// triple
-rootA charz ,
-    leftPad leftPad ,char[]Logon ,
-// a // b
-// " ++ [27880; 37322]%N ++ runes_of_ascii "
-f64	matchKey ,falsey falsey `two words` ,}")).
-Eval vm_compute in ("<<<M4172>>>" ++ check (runes_of_ascii "packet Z9_ {
-}
-
-packet T {
-    repeat charz {
-        match float as stringy {
-            00 : f32a,
-            [
-                00, 00, 0, 7, 0,
-                ""a\\""
-            ] : As,
-        },//	t
-        uint32 asx,
-        //
-        /// triple
-        repeat u8x {
-            repeat u8 string_,
-        },
-    },
-}")).
-Eval vm_compute in ("<<<M1936>>>" ++ check (runes_of_ascii "MetaData
-    u { }  options {
-// c
-// @lengthOf(
-float = int8 ;rootA =false ; As =	int16 int16 // `tick` ""quote"" 'q'
-repeatCount
-    // trailing space 
-    =
-    int16
-; u8x =
-    //	t
-    '\x00' ; } options	{
-    repeatCount
-= 0
-u128
-    //
-    = false ; i64_
-// trailing space 
-// `tick` ""quote"" 'q'
-= '0' ; //	t
-}
-")).
-Eval vm_compute in ("<<<M1861>>>" ++ check (runes_of_ascii "MetaData
-    u u { }  options {
-// c
-// @lengthOf(
-float = int8 ;rootA =false ; As =	int16 // `tick` ""quote"" 'q'
-repeatCount
-    // trailing space 
-    =
-    int16
-; u8x =
-    //	t
-    '\x00' ; } options	{
-    repeatCount
-= 0
-u128
-    //
-    = false ; i64_
-// trailing space 
-// `tick` ""quote"" 'q'
-= '0' ; //	t
-}
-")).
-Eval vm_compute in ("<<<M2073>>>" ++ check (runes_of_ascii "MetaData
-    u { }  options {
-// c
-// @lengthOf(
-float = int8 ;rootA =false ; As =	int16 // `tick` ""quote"" 'q'
-repeatCount
-    // trailing space 
-    =
-    int16
-; u8x =
-    //	t
-    '\x00' ; } options	{
-    repeatCount
-= 0
-caf" ++ [233]%N ++ runes_of_ascii "_1
-    //
-    = false ; i64_
-// trailing space 
-// `tick` ""quote"" 'q'
-= '0' ; //	t
-}
-")).
-Eval vm_compute in ("<<<M1932>>>" ++ check (runes_of_ascii "MetaData
-    u { }  options {
-// c
-// @lengthOf(
-float = int8 ;rootA =false ; As int16	= // `tick` ""quote"" 'q'
-repeatCount
-    // trailing space 
-    =
-    int16
-; u8x =
-    //	t
-    '\x00' ; } options	{
-    repeatCount
-= 0
-u128
-    //
-    = false ; i64_
-// trailing space 
-// `tick` ""quote"" 'q'
-= '0' ; //	t
-}
-")).
-Eval vm_compute in ("<<<M1865>>>" ++ check (runes_of_ascii "MetaData
-    u  }  options {
-// c
-// @lengthOf(
-float = int8 ;rootA =false ; As =	int16 // `tick` ""quote"" 'q'
-repeatCount
-    // trailing space 
-    =
-    int16
-; u8x =
-    //	t
-    '\x00' ; } options	{
-    repeatCount
-= 0
-u128
-    //
-    = false ; i64_
-// trailing space 
-// `tick` ""quote"" 'q'
-= '0' ; //	t
-}
-")).
-Eval vm_compute in ("<<<M2056>>>" ++ check (runes_of_ascii "MetaData
-    u { }  options {
-// c
-// @lengthOf(
-float = int8 ;rootA =false ; As =	int16 // `tick` ""quote"" 'q'
-repeatCount
-    // trailing space 
-    =
-    int16
-; u8x =
-    //	t
-    '\x00' ; } options	{
-    repeatCount
-= 0
-u128
-    //
-    = false ; i64_
-// trailing space 
-// `tick` ""quote"" 'q'
-= '0' ; //	t")).
-Eval vm_compute in ("<<<M1310>>>" ++ check (runes_of_ascii "packet
-    Foo{@calculatedFrom(
-""" ++ [233]%N ++ runes_of_ascii "t" ++ [233]%N ++ runes_of_ascii """ )
-repeatCount stringy, u32 u8x	@calculatedFrom(  ""{,}""
+x  `say ""hi""`
+	,
+	@calculatedFrom( ""`tick`"" 
+) 	 // c
+  @rightPad( ' ' 
 )
-    `
-`
-    // " ++ [27880; 37322]%N ++ runes_of_ascii "
+@calculatedFrom( 
+""" ++ [128512]%N ++ runes_of_ascii """) match
+    tag
+
+as
+
+    u128
+
+    { [255
+
     ,
-    repeat	float64 Foo
+	""packet""
+
+    ,
+    4294967296
 ,
-char[]T
-    `{ , }` , } packet // a // b
-f32a	{@tag(
-    // a // b
-    007) uint64
-    falsey,
-}
-MetaData Foo{
-u16
-T ,
-crc tag ,A
-    falsey	`tab	here`,	}
-")).
-Eval vm_compute in ("<<<M500>>>" ++ check (runes_of_ascii "root
-packet u8x {// @lengthOf(
-i16
-    metadata @lengthOf(
-metadata
-) `u8 x,`
-    ,zchar[ 7 ] stringy@calculatedFrom( ""abc""  )
-    `" ++ [233]%N ++ runes_of_ascii "` // trailing space 
-, @rightPad
-( // a // b
-'0' )
-match Header as
-f32a { //	t
-""" ++ [28040; 24687]%N ++ runes_of_ascii """// c
-:calculatedFrom
-,[ 10
+
+""// no comment"",
+
+""\n""
+    , // a // b
+65535
+    , """" 
+        // c
+  ,""" ++ [28040; 24687]%N ++ runes_of_ascii """
 ]
-:o , ""// no comment"" :As ""\" ++ [233]%N ++ runes_of_ascii """
-: rootA ,},
-}")).
-Eval vm_compute in ("<<<M3949>>>" ++ check (runes_of_ascii "packet Foo {
-    char[10] f32a @lengthOf(calculatedFrom) `crlf
-        line`,
-    match pack as A {
-        """ ++ [233]%N ++ runes_of_ascii "t" ++ [233]%N ++ runes_of_ascii """ : f32a,
-        [""x y"", ""`tick`""] : falsey,
-        ""x y"" : Foo,
-        7 : chars,
-        ""{,}"" : u128,
-        255 : A,
-    },
-    string T `
-        `,
-}/// triple")).
-Eval vm_compute in ("<<<M82>>>" ++ check (runes_of_ascii "packet
-zchar {@rightPad (// a // b
-) uint8 a1 `line1
-line2` , @calculatedFrom( ""x y"" ) match pack as	matchKey
-{
-    /// triple
-    """ ++ [28040; 24687]%N ++ runes_of_ascii """  : //x
-u128 ,
-    3 : i64_
-    ""a\""b""
-    : As , } ,
-// " ++ [27880; 37322]%N ++ runes_of_ascii "
-// @lengthOf(
-u8 Packet	@calculatedFrom( ""// no comment"" ) //x
+:  falsey""CRC32""
+: 
+uint8x
+, [007
+
+,
+    3
+, """ ++ [28040; 24687]%N ++ runes_of_ascii """
+	]: As
+
 ,
     }
-//
+	, }
+
 ")).
-Eval vm_compute in ("<<<M665>>>" ++ check (runes_of_ascii "
-packet
+Eval vm_compute in ("<<<M426>>>" ++ check (runes_of_ascii "
+options {x= ""abc"" ; } root packet calculatedFrom {// trailing space 
+@tag( 1 )match	x_y_z
+    as int //	t
+{[ ""it's"" ] :
+    uint8x ,  4294967296 : i64_ , ""x y"": // `tick` ""quote"" 'q'
+BodyLength , ""x y"" : u8x, }  ,
+    @tag(007)@tag( 7)
     // " ++ [27880; 37322]%N ++ runes_of_ascii "
-    Logon
-    { match
-repeatCount as
+    @lengthOf( x_y_z )
+    u64 crc, @calculatedFrom( ""CRC32"" ) u64 chars @calculatedFrom(// " ++ [27880; 37322]%N ++ runes_of_ascii "
+""// no comment""
+    ) ,@rightPad
+// c
+//x
+( ) zchar[ 10 ] lengthOf ,
+char[ 65535	] u128
+    // c
+    ,}
+options { falsey = true ; } packet
+BodyLength
+    {}")).
+Eval vm_compute in ("<<<M1117>>>" ++ check (runes_of_ascii "options {T = zchar[ 0123456789
+    ] }root packet Pad { match repeatCount  as pack{[ 3 ,
+    /// triple
+    255, ""// no comment""
+, """ ++ [28040; 24687]%N ++ runes_of_ascii """ , ""it's"",
+255
+, ""it's"" ]:
+packetx
+    // `tick` ""quote"" 'q'
+    ,
+} ,
+@calculatedFrom( ""CRC32""
+) @lengthOf( Header)	@lengthOf( u ) match As
+    as  calculatedFrom// c
+{ [	255, 00]
+// trailing space 
+/// triple
+:// " ++ [128512]%N ++ runes_of_ascii " emoji
+Z9_ ,
+[""a	b""]:// packet A { u8 x, }
+Header}
+// trailing space 
+// " ++ [128512]%N ++ runes_of_ascii " emoji
+,  x_y_z
+,
+    // packet A { u8 x, }
+    }
+")).
+Eval vm_compute in ("<<<M3631>>>" ++ check (runes_of_ascii "
+options	{ StringPrefixLenType
+	=	u8
+	;
+ArrayPrefixLenType
+= u32 ;
+
+    } packet	Quote {
+
+    u32	Ref
+,InNote74
+
+{	u8	pad0,  }  ,}
+
+packet Ack
+{
+	repeat string	OrderId, 
+}
+    packet Logout
+{zchar[
+    7
+    ] venue,
+
+char[
+12 
+] Px, string	count ,
+char[]Tail,char[]
+
+    Qty ,
+
+    Quote  ,}root 
+packet
+Trade
+	{ zchar[2	] price,
+u32  x, u32 lastPx
+@lengthOf(Body 
+) ,
+
+match x
+as Body { 148
+	:
+
+Ack, 171 : Quote ,	15
+
+    :Logout , }  ,}
+
+")).
+Eval vm_compute in ("<<<M680>>>" ++ check (runes_of_ascii "packet len { @tag( 4294967296 ) repeat f32 a1 `" ++ [28040; 24687; 31867; 22411]%N ++ runes_of_ascii "`
+    ,
+uint8x
+`
+`
+//
+//	t
+,} root packet rootA
+    { match crc
+    as // packet A { u8 x, }
+i8i8 // c
+{ ""a\""b"" : _x
+00 :
+Packet , ""// no comment"" : MetaDataX , // c
+[  """ ++ [28040; 24687]%N ++ runes_of_ascii """//x
+, 007 ] : MetaDataX 42:  charz , [ """ ++ [233]%N ++ runes_of_ascii "t" ++ [233]%N ++ runes_of_ascii """	, // a // b
+""abc"" ]: _x, } , uint16 Logon, @leftPad
+    (
+' ' ) // packet A { u8 x, }
+@leftPad
+( // " ++ [27880; 37322]%N ++ runes_of_ascii "
+' ' ) uint8  stringy @lengthOf(
+    msg_type ) `
+`
+    , }")).
+Eval vm_compute in ("<<<M408>>>" ++ check (runes_of_ascii "packet body{ @tag(42 )
+rootA Logon `line1
+line2`
+, repeatCount{ repeat lengthOf x_y_z , Pad
+    , repeat falsey packetx
+    ,	string rootA`` /// triple
+,} ,
+@leftPad
     // a // b
-    trueish { 1 //	t
-:
-    int[""" ++ [28040; 24687]%N ++ runes_of_ascii """ , 65535 ,
-// " ++ [27880; 37322]%N ++ runes_of_ascii "
-// a // b
-""{,}"" ,10 ,	42
-,007]: body,[ ""CRC32"" , ""x y"" ]:
-T ,// packet A { u8 x, }
-[ 42 ]: a1 , 7 :chars
-    , } // packet A { u8 x, }
-,}")).
-Eval vm_compute in ("<<<M1535>>>" ++ check (runes_of_ascii "packet
-//	t
-// trailing space 
-_x {
-// packet A { u8 x, }
-// c
-char[
-3
-    ] u8x @lengthOf(
-u8x match , @calculatedFrom(""" ++ [128512]%N ++ runes_of_ascii """ // @lengthOf(
-)
-i16	Foo
-@lengthOf(	string_
-    )`doc`	, repeat	i64 metadata , @lengthOf( string_
-) i8 // c
-u  `line1
-line2`	,
-}
-")).
-Eval vm_compute in ("<<<M1657>>>" ++ check (runes_of_ascii "packet
-//	t
-// trailing space 
-_x {
-// packet A { u8 x, }
-// c
-char[
-3
-    ] u8x @lengthOf(
-u8x ) , @calculatedFrom(""" ++ [128512]%N ++ runes_of_ascii """ // @lengthOf(
-)
-i16	Foo
-@lengthOf(	string_
-    )`doc`	? , repeat	i64 metadata , @lengthOf( string_
-) i8 // c
-u  `line1
-line2`	,
-}
-")).
-Eval vm_compute in ("<<<M1524>>>" ++ check (runes_of_ascii "packet
-//	t
-// trailing space 
-_x {
-// packet A { u8 x, }
-// c
-char[
-3
-    ] u8x u8x
-@lengthOf( ) , @calculatedFrom(""" ++ [128512]%N ++ runes_of_ascii """ // @lengthOf(
-)
-i16	Foo
-@lengthOf(	string_
-    )`doc`	, repeat	i64 metadata , @lengthOf( string_
-) i8 // c
-u  `line1
-line2`	,
-}
-")).
-Eval vm_compute in ("<<<M745>>>" ++ check (runes_of_ascii "packet calculatedFrom { match
-    Logon as	u128 { [ 1 ,
-""// no comment"" ] : u8x ""`tick`"" : Header ,
-    ""`tick`"":
-    BodyLength ""it's""
-// a // b
-// packet A { u8 x, }
-: zchar
-} // " ++ [27880; 37322]%N ++ runes_of_ascii "
-, // `tick` ""quote"" 'q'
-char metadata @calculatedFrom( ""a\\"" ), }
-")).
-Eval vm_compute in ("<<<M781>>>" ++ check (runes_of_ascii "
-packet As {
-@calculatedFrom(""" ++ [28040; 24687]%N ++ runes_of_ascii """ ) @rightPad ( ' '
-)@leftPad(
-    ) rootA `crlf
-line` , }
-options {len=0
-; Z9_= ""\n"" ;repeatCount
-=
-    //x
-    ""// no comment"" ; /// triple
-calculatedFrom =
-int64  chars = ""\n"" }	options
-{ // trailing space 
-}")).
-Eval vm_compute in ("<<<M1567>>>" ++ check (runes_of_ascii "packet
-//	t
-// trailing space 
-_x {
-// packet A { u8 x, }
-// c
-char[
-3
-    ] u8x @lengthOf(
-u8x ) , @calculatedFrom(""" ++ [128512]%N ++ runes_of_ascii """ // @lengthOf(
-)
-i16	Foo
-	string_
-    )`doc`	, repeat	i64 metadata , @lengthOf( string_
-) i8 // c
-u  `line1
-line2`	,
-}
-")).
-Eval vm_compute in ("<<<M3877>>>" ++ check (runes_of_ascii "packet Sub {
-    u8 a,
-    @calculatedFrom(""CRC16"")
-    u16 SubSum,
+    ('\x00' )char[
+0
+]
+    roots , msg_type
+,
+u128 charz
+    ,
+    string crc`" ++ [28040; 24687; 31867; 22411]%N ++ runes_of_ascii "`
+    , match Header as Packet
+    {
+10  :x , [
+//x
+// `tick` ""quote"" 'q'
+""1""] : matchKey
+, 10
+: // @lengthOf(
+i64_ 255// a // b
+:T , } ,
+} packet	o { }")).
+Eval vm_compute in ("<<<M4209>>>" ++ check (runes_of_ascii "MetaData f32a {
+    char[] trueish,
+    float64 u128 `" ++ [28040; 24687; 31867; 22411]%N ++ runes_of_ascii "`,
+    //	t
+    tag f32a,
+    matchKey int `two words`,
+    i8 pack `a\`,
 }
 
-root packet Frame {
-    u16 MsgType,
-    u16 BodyLen @lengthOf(Body),
-    Sub Body,
-    string note,
-    @calculatedFrom(""CRC16"")
-    u16 Checksum,
-    u8 tail,
-}")).
-Eval vm_compute in ("<<<M898>>>" ++ check (runes_of_ascii "packet metadata {@lengthOf(
-i8i8
-)match BodyLength as
-    Foo
-{
-    3 : len ,} , body
-    @lengthOf(	roots
-    ),f32a x ,} root packet i8i8
-    {zchar[10
-    ]
-i64_  @calculatedFrom(""a\\""
-) `
+packet asx {
+    int8 Header `say ""hi""`,
+}
+
+MetaData roots {
+    i32 tag `" ++ [233]%N ++ runes_of_ascii "`,
+    crc Z9_,
+    T T `
+        `,//
+    int32 matchKey,
+    matchKey Header `line1
+        line2`,
+    // `tick` ""quote"" 'q'
+    //x
+    char[0] MetaDataX,
+    // c
+    // @lengthOf(
+}// " ++ [27880; 37322]%N)).
+Eval vm_compute in ("<<<M701>>>" ++ check (runes_of_ascii "// a // b
+root	packet
+//x
+// `tick` ""quote"" 'q'
+f32a { } root packet  packetx { match x_y_z as	Logon{ // `tick` ""quote"" 'q'
+""" ++ [28040; 24687]%N ++ runes_of_ascii """
+    : Packet
+[ 7
+] // @lengthOf(
+:falsey
+,	""`tick`""
+: roots
+    ,	""packet"" : u128 , } ,match falsey as metadata
+{65535 :As
+,  ""a\""b""
+: crc,
+""\" ++ [233]%N ++ runes_of_ascii """
+: Logon
+    , } , u8x `two words` , @tag( 0 )Z9_,}
+// " ++ [128512]%N ++ runes_of_ascii " emoji
+// " ++ [128512]%N ++ runes_of_ascii " emoji
+options	{	options1 = false }")).
+Eval vm_compute in ("<<<M533>>>" ++ check (runes_of_ascii "
+packet repeatCount {uint64
+stringy, } options {
+crc
+    = '0' } //x
+packet int{ repeat
+a1 charz ,
+    }options { matchKey = """ ++ [28040; 24687]%N ++ runes_of_ascii """  ;
+    crc = """ ++ [28040; 24687]%N ++ runes_of_ascii """ ;roots= // `tick` ""quote"" 'q'
+'\x00'
+;
+// packet A { u8 x, }
+//x
+} packet i8i8{ @calculatedFrom( ""abc""
+) char[]_x `
 `
-, } // packet A { u8 x, }")).
-Eval vm_compute in ("<<<M718>>>" ++ check (runes_of_ascii "packet stringy {
-    u @calculatedFrom(""" ++ [233]%N ++ runes_of_ascii "t" ++ [233]%N ++ runes_of_ascii """
-), repeat
-pack string_ , zchar[7
-]x_y_z  , }
-    options{ Pad
-= false _x =
-    ""\" ++ [233]%N ++ runes_of_ascii """ ;
-}MetaData zchar {
-    uint8 trueish `it's` ,char[ 65535]
-uint8x ,  stringy tag ,}")).
-Eval vm_compute in ("<<<M693>>>" ++ check (runes_of_ascii "packet _x {  repeat roots
-matchKey `" ++ [233]%N ++ runes_of_ascii "`
-, @rightPad ('\x00')@calculatedFrom( ""it's"" ) @lengthOf(
-tag )
-    match//	t
-zchar
-as zchar
+,/// triple
+uint8 Packet// a // b
+`crlf
+line` , string_ `{ , }` // " ++ [27880; 37322]%N ++ runes_of_ascii "
+,
+/// triple
+// " ++ [128512]%N ++ runes_of_ascii " emoji
+}")).
+Eval vm_compute in ("<<<M858>>>" ++ check (runes_of_ascii "MetaData _x{
+    body
+float
+, float64
+    x_y_z `tab	here` ,  char[00
+]
+o`a\`
+, Z9_	crc
+    `doc`
+,} packet options1 { @lengthOf( T )@lengthOf( chars  ) @rightPad
+(
+    ' '  ) string_ falsey ,
+    // packet A { u8 x, }
+    } MetaData Pad
+{ //x
+Foo Z9_
+    `crlf
+line` , x_y_z packetx	,
+    uint32 calculatedFrom , i64 falsey ,packetx As ``,  }")).
+Eval vm_compute in ("<<<M771>>>" ++ check (runes_of_ascii "MetaData
+chars{ zchar[// " ++ [27880; 37322]%N ++ runes_of_ascii "
+3] As `say ""hi""` , }root packet lengthOf
 {
-0123456789  : trueish [""{,}""
-] : metadata , 7 : u, ""`tick`"" : asx
-    ,} ,}")).
+//
+/// triple
+@rightPad( ' '
+// " ++ [27880; 37322]%N ++ runes_of_ascii "
+// @lengthOf(
+) f32 MetaDataX  @calculatedFrom( """"
+    )`{ , }` , match string_
+as // trailing space 
+x_y_z { 42
+: lengthOf,00  :chars ""// no comment"" : BodyLength , ""// no comment"":	tag ,255 : a1 ,
+""""	:
+stringy
+,
+    },
+    }
+")).
+Eval vm_compute in ("<<<M570>>>" ++ check (runes_of_ascii "options {
+i64_  = char[
+    65535 ]
+T = '0' } packet
+crc{@calculatedFrom(
+""abc"" )zchar[ 007 ] //
+msg_type
+@lengthOf( Header)  , repeat int8 string_
+`crlf
+line`
+,tag@lengthOf( BodyLength ) ,  }
+    // trailing space 
+    options
+    {
+    //
+    matchKey =
+// c
+// c
+""" ++ [128512]%N ++ runes_of_ascii """	; /// triple
+asx =' '	; crc
+    = true
+;
+    }")).
+Eval vm_compute in ("<<<M2041>>>" ++ check (runes_of_ascii "MetaData
+    u { }  options {
+// c
+// @lengthOf(
+float = int8 ;rootA =false ; As =	int16 // `tick` ""quote"" 'q'
+repeatCount
+    // trailing space 
+    =
+    int16
+; u8x =
+    //	t
+    '\x00' ; } options	{
+    repeatCount
+= 0
+u128
+    //
+    = false ; i64_
+// trailing space 
+// `tick` ""quote"" 'q'
+= '0' '0' ; //	t
+}
+")).
+Eval vm_compute in ("<<<M2026>>>" ++ check (runes_of_ascii "MetaData
+    u { }  options {
+// c
+// @lengthOf(
+float = int8 ;rootA =false ; As =	int16 // `tick` ""quote"" 'q'
+repeatCount
+    // trailing space 
+    =
+    int16
+; u8x =
+    //	t
+    '\x00' ; } options	{
+    repeatCount
+= 0
+u128
+    //
+    = false ; ; i64_
+// trailing space 
+// `tick` ""quote"" 'q'
+= '0' ; //	t
+}
+")).
+Eval vm_compute in ("<<<M1863>>>" ++ check (runes_of_ascii "MetaData
+    ( { }  options {
+// c
+// @lengthOf(
+float = int8 ;rootA =false ; As =	int16 // `tick` ""quote"" 'q'
+repeatCount
+    // trailing space 
+    =
+    int16
+; u8x =
+    //	t
+    '\x00' ; } options	{
+    repeatCount
+= 0
+u128
+    //
+    = false ; i64_
+// trailing space 
+// `tick` ""quote"" 'q'
+= '0' ; //	t
+}
+")).
+Eval vm_compute in ("<<<M2012>>>" ++ check (runes_of_ascii "MetaData
+    u { }  options {
+// c
+// @lengthOf(
+float = int8 ;rootA =false ; As =	int16 // `tick` ""quote"" 'q'
+repeatCount
+    // trailing space 
+    =
+    int16
+; u8x =
+    //	t
+    '\x00' ; } options	{
+    repeatCount
+= 0
+=
+    //
+    u128 false ; i64_
+// trailing space 
+// `tick` ""quote"" 'q'
+= '0' ; //	t
+}
+")).
+Eval vm_compute in ("<<<M2015>>>" ++ check (runes_of_ascii "MetaData
+    u { }  options {
+// c
+// @lengthOf(
+float = int8 ;rootA =false ; As =	int16 // `tick` ""quote"" 'q'
+repeatCount
+    // trailing space 
+    =
+    int16
+; u8x =
+    //	t
+    '\x00' ; } options	{
+    repeatCount
+= 0
+u128
+    //
+     false ; i64_
+// trailing space 
+// `tick` ""quote"" 'q'
+= '0' ; //	t
+}
+")).
+Eval vm_compute in ("<<<M1943>>>" ++ check (runes_of_ascii "MetaData
+    u { }  options {
+// c
+// @lengthOf(
+float = int8 ;rootA =false ; As =	int16 // `tick` ""quote"" 'q'
+match
+    // trailing space 
+    =
+    int16
+; u8x =
+    //	t
+    '\x00' ; } options	{
+    repeatCount
+= 0
+u128
+    //
+    = false ; i64_
+// trailing space 
+// `tick` ""quote"" 'q'
+= '0' ; //	t
+}
+")).
+Eval vm_compute in ("<<<M1340>>>" ++ check (runes_of_ascii "  root
+// `tick` ""quote"" 'q'
+//
+packet
+    T
+    {	@rightPad (	) @calculatedFrom( ""it's""
+) int A, match
+    Packet as Packet { 0123456789 : u128 ,// c
+""a\\"" : Foo , 1:// @lengthOf(
+int , [
+    // " ++ [128512]%N ++ runes_of_ascii " emoji
+    7, 4294967296 , ""\n"" ,
+""abc""	,
+""abc"",
+""\" ++ [233]%N ++ runes_of_ascii """] : msg_type }, }
+    options
+{ zchar  =
+' ' ; }
+")).
+Eval vm_compute in ("<<<M3728>>>" ++ check (runes_of_ascii "
+
+  options 
+{ 
+LittleEndian
+
+= true
+	;
+}packet  Sub {
+	u8
+
+a
+	,
+    @calculatedFrom( 
+""CRC16""
+)u64
+SubSum , }root
+    packet	Frame
+	{u16	MsgType 
+,
+
+    u16 BodyLen
+
+@lengthOf(
+    Body  ), Sub  Body 
+,
+
+    string note
+	,
+	@calculatedFrom(
+
+""CRC16"" 
+) u64 Checksum
+
+,
+u8	tail
+,  }
+")).
+Eval vm_compute in ("<<<M4461>>>" ++ check (runes_of_ascii "root packet BodyLength {
+    u16 tag @calculatedFrom(""packet""),
+    u8 i8i8,
+    repeat float64 string_ `u8 x,`,
+}
+
+MetaData stringy {
+    repeatCount a1,
+    // " ++ [27880; 37322]%N ++ runes_of_ascii "
+    char[0123456789] u128 `doc`,
+    u16 _x,
+    i64 pack,
+    i64 BodyLength `say ""hi""`,
+    zchar[255] Z9_,
+}")).
+Eval vm_compute in ("<<<M3928>>>" ++ check (runes_of_ascii "packet MDSnapshotZZ {
+    u8 a,
+}
+
+packet OrderACK {
+    u16 b,
+}
+
+packet HTTPServerInfo {
+    string s,
+}
+
+root packet FIXMsg {
+    u8 KType,
+    MDSnapshotZZ,
+    repeat OrderACK,
+    match KType as Body {
+        1 : HTTPServerInfo,
+        2 : OrderACK,
+    },
+}")).
+Eval vm_compute in ("<<<M1489>>>" ++ check (runes_of_ascii "packet packet
+//	t
+// trailing space 
+_x {
+// packet A { u8 x, }
+// c
+char[
+3
+    ] u8x @lengthOf(
+u8x ) , @calculatedFrom(""" ++ [128512]%N ++ runes_of_ascii """ // @lengthOf(
+)
+i16	Foo
+@lengthOf(	string_
+    )`doc`	, repeat	i64 metadata , @lengthOf( string_
+) i8 // c
+u  `line1
+line2`	,
+}
+")).
+Eval vm_compute in ("<<<M1628>>>" ++ check (runes_of_ascii "packet
+//	t
+// trailing space 
+_x {
+// packet A { u8 x, }
+// c
+char[
+3
+    ] u8x @lengthOf(
+u8x ) , @calculatedFrom(""" ++ [128512]%N ++ runes_of_ascii """ // @lengthOf(
+)
+i16	Foo
+@lengthOf(	string_
+    )`doc`	, repeat	i64 metadata , @lengthOf( string_
+) i8 i8 // c
+u  `line1
+line2`	,
+}
+")).
+Eval vm_compute in ("<<<M1658>>>" ++ check (runes_of_ascii "packet
+|//	t
+// trailing space 
+_x {
+// packet A { u8 x, }
+// c
+char[
+3
+    ] u8x @lengthOf(
+u8x ) , @calculatedFrom(""" ++ [128512]%N ++ runes_of_ascii """ // @lengthOf(
+)
+i16	Foo
+@lengthOf(	string_
+    )`doc`	, repeat	i64 metadata , @lengthOf( string_
+) i8 // c
+u  `line1
+line2`	,
+}
+")).
+Eval vm_compute in ("<<<M1579>>>" ++ check (runes_of_ascii "packet
+//	t
+// trailing space 
+_x {
+// packet A { u8 x, }
+// c
+char[
+3
+    ] u8x @lengthOf(
+u8x ) , @calculatedFrom(""" ++ [128512]%N ++ runes_of_ascii """ // @lengthOf(
+)
+i16	Foo
+@lengthOf(	string_
+    `doc`)	, repeat	i64 metadata , @lengthOf( string_
+) i8 // c
+u  `line1
+line2`	,
+}
+")).
+Eval vm_compute in ("<<<M1622>>>" ++ check (runes_of_ascii "packet
+//	t
+// trailing space 
+_x {
+// packet A { u8 x, }
+// c
+char[
+3
+    ] u8x @lengthOf(
+u8x ) , @calculatedFrom(""" ++ [128512]%N ++ runes_of_ascii """ // @lengthOf(
+)
+i16	Foo
+@lengthOf(	string_
+    )`doc`	, repeat	i64 metadata , @lengthOf( string_
+ i8 // c
+u  `line1
+line2`	,
+}
+")).
+Eval vm_compute in ("<<<M1592>>>" ++ check (runes_of_ascii "packet
+//	t
+// trailing space 
+_x {
+// packet A { u8 x, }
+// c
+char[
+3
+    ] u8x @lengthOf(
+u8x ) , @calculatedFrom(""" ++ [128512]%N ++ runes_of_ascii """ // @lengthOf(
+)
+i16	Foo
+@lengthOf(	string_
+    )`doc`	, 	i64 metadata , @lengthOf( string_
+) i8 // c
+u  `line1
+line2`	,
+}
+")).
+Eval vm_compute in ("<<<M4582>>>" ++ check (runes_of_ascii "packet calculatedFrom {
+    match Logon as u128 {
+        [1, ""// no comment""] : u8x,
+        ""`tick`"" : Header,
+        ""`tick`"" : BodyLength,
+        ""it's"" : zchar,
+    },// `tick` ""quote"" 'q'
+    char metadata @calculatedFrom(""a\\""),
+}")).
+Eval vm_compute in ("<<<M4064>>>" ++ check (runes_of_ascii "  // @lengthOf(
+    MetaData
+
+Foo
+	{}
+    MetaData  // trailing space 
+	packetx	{
+
+f32a	A 
+`two words` ,u8	u8x	`" ++ [28040; 24687; 31867; 22411]%N ++ runes_of_ascii "`,
+    charz
+lengthOf
+    /// triple
+    ,int
+x_y_z
+
+    ,  // " ++ [128512]%N ++ runes_of_ascii " emoji
+	char[
+    00 ]	packetx 
+,
+} // a // b")).
+Eval vm_compute in ("<<<M3987>>>" ++ check (runes_of_ascii "packet roots {
+    pack,
+    @calculatedFrom(""it's"")
+    MetaDataX @lengthOf(u),
+    @lengthOf(falsey)
+    metadata _x `doc`,
+}
+
+options {
+    BodyLength = """ ++ [28040; 24687]%N ++ runes_of_ascii """;
+    Packet = 0123456789;
+    T = ' ';
+    T = 4294967296;
+}")).
+Eval vm_compute in ("<<<M1125>>>" ++ check (runes_of_ascii "MetaData string_ {
+i32 packetx
+`doc`, }//
+packet zchar{ @rightPad
+    (' '
+)@calculatedFrom(""`tick`"" ) @calculatedFrom( ""CRC32"" // c
+)u8x
+    /// triple
+    @lengthOf(
+    Foo ) ,
+    }	root
+packet i8i8
+    { }
+
+")).
+Eval vm_compute in ("<<<M3424>>>" ++ check (runes_of_ascii "// top
+packet // c0
+o // c1
+{ // c2
+repeat // c3
+Logon // c4
+uint8x // c5
+, // c6
+} // c7
+options // c8
+{ // c9
+asx // c10
+= // c11
+zchar[ // c12
+3 // c13
+] // c14
+stringy // c15
+= // c16
+'\x00' // c17
+} // c18
+")).
 Eval vm_compute in ("<<<M713>>>" ++ check (runes_of_ascii "// @lengthOf(
 MetaData
     Foo{} MetaData// trailing space 
@@ -2597,7 +2244,7 @@ line2` , packet
 u16 string_ `u8 x,` ,
 }
 ")).
-Eval vm_compute in ("<<<M1826>>>" ++ check (runes_of_ascii "options { trueish = ""`tick`"" ; string_= """ ++ [233]%N ++ runes_of_ascii "t" ++ [233]%N ++ runes_of_ascii """
+Eval vm_compute in ("<<<M1806>>>" ++ check (runes_of_ascii "options { trueish = ""`tick`"" ; string_= """ ++ [233]%N ++ runes_of_ascii "t" ++ [233]%N ++ runes_of_ascii """
     // c
     } root
     packet body { stringy @calculatedFrom(
@@ -2605,47 +2252,63 @@ Eval vm_compute in ("<<<M1826>>>" ++ check (runes_of_ascii "options { trueish = 
 line2` , }
 packet Logon {
     @leftPad(
-    ' ' ) //	t
-u16 string_ `u8 x,` 
+    ' '  //	t
+u16 string_ `u8 x,` ,
 }
 ")).
-Eval vm_compute in ("<<<M1776>>>" ++ check (runes_of_ascii "options { trueish = ""`tick`"" ; string_= """ ++ [233]%N ++ runes_of_ascii "t" ++ [233]%N ++ runes_of_ascii """
+Eval vm_compute in ("<<<M1749>>>" ++ check (runes_of_ascii "options { trueish = ""`tick`"" ; string_= """ ++ [233]%N ++ runes_of_ascii "t" ++ [233]%N ++ runes_of_ascii """
     // c
     } root
-    packet body { stringy @calculatedFrom(
+    packet body { stringy @lengthOf(
 ""a	b"" ) `line1
 line2` , }
- Logon {
+packet Logon {
     @leftPad(
     ' ' ) //	t
 u16 string_ `u8 x,` ,
 }
 ")).
-Eval vm_compute in ("<<<M919>>>" ++ check (runes_of_ascii "MetaData float
-{ // " ++ [27880; 37322]%N ++ runes_of_ascii "
-} root packet	Header {float  {
-i32 u8x @lengthOf( a1 )
-`u8 x,` , }
-, char[] i64_
-@calculatedFrom( ""a\\"" )
-`" ++ [233]%N ++ runes_of_ascii "`,
-    float64	packetx `{ , }`,
-    } // packet A { u8 x, }")).
-Eval vm_compute in ("<<<M605>>>" ++ check (runes_of_ascii "MetaData body {string	MetaDataX `" ++ [28040; 24687; 31867; 22411]%N ++ runes_of_ascii "`, }options{	zchar // packet A { u8 x, }
-=
-    false} packet chars// a // b
-{ @tag(
-42 )
-len roots ,@rightPad () Header @lengthOf( charz ) ,
-    }
-")).
-Eval vm_compute in ("<<<M530>>>" ++ check (runes_of_ascii "// c
-packet BodyLength { u { char[ 007] i8i8`a\` , pack{ match charz as // packet A { u8 x, }
-Header
-    { ""\n""
-    : leftPad } , } , string u8x @calculatedFrom( """ ++ [233]%N ++ runes_of_ascii "t" ++ [233]%N ++ runes_of_ascii """	)	, } ,
+Eval vm_compute in ("<<<M4574>>>" ++ check (runes_of_ascii "packet calculatedFrom {
+    @calculatedFrom(""{,}"")
+    // c
+    @tag(65535)
+    f32 Packet @lengthOf(o),
+    @calculatedFrom(""`tick`"")
+    uint32 MetaDataX @calculatedFrom(""it's"") ``,
+}// a // b")).
+Eval vm_compute in ("<<<M277>>>" ++ check (runes_of_ascii "// " ++ [128512]%N ++ runes_of_ascii " emoji
+MetaData trueish {
+    // @lengthOf(
+    asx lengthOf
+    // a // b
+    , int8 // c
+float`it's`
+,}
+MetaData
+int{ int8
+charz ,} packet asx { o @calculatedFrom(
+""\" ++ [233]%N ++ runes_of_ascii """
+    ) ,
 }
 ")).
+Eval vm_compute in ("<<<M4204>>>" ++ check (runes_of_ascii "
+packet 
+Z9_
+
+    { 
+// trailing space 
+
+  // " ++ [128512]%N ++ runes_of_ascii " emoji
+  @calculatedFrom(
+	""1""  )// packet A { u8 x, }
+    matchKey
+	@calculatedFrom( """ ++ [128512]%N ++ runes_of_ascii """
+
+)`tab	here`
+
+,} 
+
+// packet A { u8 x, }")).
 Eval vm_compute in ("<<<M3391>>>" ++ check (runes_of_ascii "// top
 MetaData // c0
 body
@@ -2664,491 +2327,458 @@ calculatedFrom ,
     // c13
 } // c14
 ")).
-Eval vm_compute in ("<<<M3857>>>" ++ check (runes_of_ascii "packet stringy {
-    @lengthOf(rootA)
-    repeat char[] len `u8 x,`,
-    float32 zchar,
-    @tag(42)
-    @tag(255)
-    @tag(10)
-    repeatCount,
-    repeat leftPad,
-}")).
-Eval vm_compute in ("<<<M1287>>>" ++ check (runes_of_ascii "  packet rootA { asx , @tag(
-    //x
-    10 // " ++ [128512]%N ++ runes_of_ascii " emoji
-)	@tag( 1	) @calculatedFrom( ""1"" ) /// triple
-charz @calculatedFrom( ""a\\"")`line1
-line2`, // @lengthOf(
-}")).
-Eval vm_compute in ("<<<M2175>>>" ++ check (runes_of_ascii "options{
+Eval vm_compute in ("<<<M259>>>" ++ check (runes_of_ascii "options { Pad = char[]; u8x
+    // trailing space 
+    =
+    ""packet"";
+o = i64
+; stringy
+=""a\""b""
+packetx
+    // trailing space 
+    = 65535
+} options
+{ chars
+= '0'}")).
+Eval vm_compute in ("<<<M1372>>>" ++ check (runes_of_ascii "packet
+x	{ As { a1
+{ char[
+65535 ]
+// " ++ [27880; 37322]%N ++ runes_of_ascii "
+/// triple
+crc `` ,	msg_type ,} , } , repeat Z9_ {
+    T ,	pack ,	repeat tag  A, int64/// triple
+f32a`u8 x,` ,	}
+,
+} 	 ")).
+Eval vm_compute in ("<<<M627>>>" ++ check (runes_of_ascii "//
+MetaData calculatedFrom {
+    char[ 42 ]
+tag	,
+    body tag ``
+, int16 int , zchar[ 42 ] tag //	t
+`doc`
+, char[]matchKey , uint32 // " ++ [128512]%N ++ runes_of_ascii " emoji
+Z9_,  } //	t")).
+Eval vm_compute in ("<<<M2165>>>" ++ check (runes_of_ascii "options{
 _x
 = true
 } options
 { o	= /// triple
 false
     ; chars
-= ""\n"" } root packet	Pad
-/// triple
-// packet A { u8 x, }
-{	chars chars
-    // a // b
-    ,}")).
-Eval vm_compute in ("<<<M2323>>>" ++ check (runes_of_ascii "// c
-packet x { @lengthOf( metadata ) repeat lengthOf
-,a1{
-trueish	,// c
-repeat//	t
-MetaDataX , } , zchar[
-    42	] rootA // `tick` ""quote"" 'q'
-""1""
-    }
-")).
-Eval vm_compute in ("<<<M2090>>>" ++ check (runes_of_ascii "options{
-_x
-= = true
-} options
-{ o	= /// triple
-false
-    ; chars
-= ""\n"" } root packet	Pad
+= ""\n"" } root packet	Pad Pad
 /// triple
 // packet A { u8 x, }
 {	chars
     // a // b
     ,}")).
-Eval vm_compute in ("<<<M2418>>>" ++ check (runes_of_ascii "// c
-packet x { @lengthOf( metadata ) repeat lengthOf
-,a1{
-trueish	,// c
-repeat//	t
-MetaDataX } , , zchar[
-    42	] rootA // `tick` ""quote"" 'q'
-,
-    }
-")).
-Eval vm_compute in ("<<<M2091>>>" ++ check (runes_of_ascii "options{
-_x
-true =
-} options
-{ o	= /// triple
-false
-    ; chars
-= ""\n"" } root packet	Pad
-/// triple
-// packet A { u8 x, }
-{	chars
-    // a // b
-    ,}")).
-Eval vm_compute in ("<<<M2097>>>" ++ check (runes_of_ascii "options{
-_x
-= i32
-} options
-{ o	= /// triple
-false
-    ; chars
-= ""\n"" } root packet	Pad
-/// triple
-// packet A { u8 x, }
-{	chars
-    // a // b
-    ,}")).
-Eval vm_compute in ("<<<M2348>>>" ++ check (runes_of_ascii "// c
-{ x { @lengthOf( metadata ) repeat lengthOf
-,a1{
-trueish	,// c
-repeat//	t
-MetaDataX , } , zchar[
-    42	] rootA // `tick` ""quote"" 'q'
-,
-    }
-")).
-Eval vm_compute in ("<<<M3750>>>" ++ check (runes_of_ascii "
-
-  root 
-    // c
-  packet
-matchKey
-
-{ 
-zchar[3
-    ]
-
-pack  @calculatedFrom( ""a	b""
-
-) `doc` , }  options  {
-	}
-
-MetaData
-
-A
-{	int8 msg_type
-,  }")).
-Eval vm_compute in ("<<<M868>>>" ++ check (runes_of_ascii "MetaData  tag
-    {char[ 3
-    // trailing space 
-    ]u8x , packetx a1 , } // packet A { u8 x, }
-MetaData chars
-{ i16 uint8x
-    `tab	here` ,}")).
-Eval vm_compute in ("<<<M81>>>" ++ check (runes_of_ascii "
-root packet // `tick` ""quote"" 'q'
-rootA { @rightPad (
-) @leftPad(	) @lengthOf(  MetaDataX  )float// c
-u128`a\` , // `tick` ""quote"" 'q'
-}
-")).
-Eval vm_compute in ("<<<M1775>>>" ++ check (runes_of_ascii "options { trueish = ""`tick`"" ; string_= """ ++ [233]%N ++ runes_of_ascii "t" ++ [233]%N ++ runes_of_ascii """
-    // c
-    } root
-    packet body { stringy @calculatedFrom(
-""a	b"" ) `line1
-line2` ,")).
-Eval vm_compute in ("<<<M3562>>>" ++ check (runes_of_ascii "
-options{
-	LittleEndian  =
-true
-; 
-}
-    root  packet P  { u16
-	a
-,
-
-    u32
-    Sum
-
-    @calculatedFrom(
-
-""CRC32"" 
-) , }
-")).
-Eval vm_compute in ("<<<M3989>>>" ++ check (runes_of_ascii "packet tag {
-    @rightPad()
-    zchar[00] MetaDataX `" ++ [233]%N ++ runes_of_ascii "`,
-    float32 Header `say ""hi""`,
-}
-
-MetaData T {
-    int lengthOf,
-}")).
-Eval vm_compute in ("<<<M4390>>>" ++ check (runes_of_ascii "
-packet 
-metadata{
-
-Logon 
-// c
-  {
-
-A
-    `" ++ [28040; 24687; 31867; 22411]%N ++ runes_of_ascii "`
-
-    ,
-
-tag o
-
-    ,
-
+Eval vm_compute in ("<<<M3776>>>" ++ check (runes_of_ascii "packet rootA {
+    Z9_ u `doc`,// packet A { u8 x, }
+    i16 options1 `// not a comment`,
+    @rightPad(' ')
+    lengthOf {
+        zchar[3] body,
     },
-	zchar	len
-`// not a comment`  ,
+}")).
+Eval vm_compute in ("<<<M2397>>>" ++ check (runes_of_ascii "// c
+packet x { @lengthOf( metadata ) repeat lengthOf
+,a1{
+trueish	,// c
+repeat//	t
+MetaDataX , } , zchar[
+    42	] rootA // `tick` ""quote"" 'q'
+}
+    ,
+")).
+Eval vm_compute in ("<<<M699>>>" ++ check (runes_of_ascii "// `tick` ""quote"" 'q'
+root packet u8x{match zchar as falsey
+    { """ ++ [128512]%N ++ runes_of_ascii """:
+    len	},}MetaData// c
+rootA
+{
+    //
+    char[
+3 ] rootA , uint64
+asx
+    , }")).
+Eval vm_compute in ("<<<M3818>>>" ++ check (runes_of_ascii "  packet  A
 
+{
+
+    match
+	k	as	n {	[
+    1
+
+,	""bb"" ,
+	007 , ""d""
+
+    , 5
+
+    ,  ""f""
+    ,
+
+    7
+
+,""h"",
+	9
+	,
+
+""j""]
+
+: 
+B
+
+    ,2 :  C	}, } ")).
+Eval vm_compute in ("<<<M225>>>" ++ check (runes_of_ascii "
+MetaData options1 { zchar[
+    007 ] // `tick` ""quote"" 'q'
+zchar	`a\` , uint32 As ,
+    i8i8
+Foo ,
+// packet A { u8 x, }
+//x
+}
+    packet falsey { }")).
+Eval vm_compute in ("<<<M623>>>" ++ check (runes_of_ascii "packet x_y_z {
+@lengthOf(
+roots
+) u32  Pad `{ , }` ,
+    // packet A { u8 x, }
+    repeat body{ repeat
+    body roots `line1
+line2` , }
+    ,
 }
 
 ")).
-Eval vm_compute in ("<<<M3338>>>" ++ check (runes_of_ascii "root packet matchKey { zchar[ 3 ] pack @calculatedFrom( ""a	b"" ) `doc` , } // c
-options { } MetaData A { int8 msg_type , }")).
-Eval vm_compute in ("<<<M1448>>>" ++ check (runes_of_ascii "
+Eval vm_compute in ("<<<M856>>>" ++ check (runes_of_ascii "root packet Header
+{ match leftPad as Foo
+    {// c
+7 : o
+// @lengthOf(
+//x
+,
+0 : u8x 65535: leftPad  ,
+    00:
+asx  , ""it's"" : //
+o , },
+    }
+")).
+Eval vm_compute in ("<<<M565>>>" ++ check (runes_of_ascii "
+packet T {
+@leftPad ( )
+@calculatedFrom(""" ++ [233]%N ++ runes_of_ascii "t" ++ [233]%N ++ runes_of_ascii """ ) msg_type // trailing space 
+@lengthOf( i8i8
+)`a\`
+    ,
+// `tick` ""quote"" 'q'
+// " ++ [128512]%N ++ runes_of_ascii " emoji
+}")).
+Eval vm_compute in ("<<<M3360>>>" ++ check (runes_of_ascii "// top
+packet // c0
+x // c1
+{ // c2
+@rightPad // c3
+( // c4
+) // c5
+repeat // c6
+roots // c7
+Logon // c8
+`doc` // c9
+, // c10
+} // c11
+")).
+Eval vm_compute in ("<<<M698>>>" ++ check (runes_of_ascii "MetaData Z9_ {
+    } packet lengthOf {
+@tag(
+    00	) u32
+trueish , // trailing space 
+repeat string roots
+`doc`	,
+} // " ++ [128512]%N ++ runes_of_ascii " emoji")).
+Eval vm_compute in ("<<<M254>>>" ++ check (runes_of_ascii "packet rootA {	}
+// `tick` ""quote"" 'q'
+/// triple
+options  {stringy
+    =
+0123456789
+;
+T =42 ;
+string_ = ""a\""b""
+    ; }
+//
+")).
+Eval vm_compute in ("<<<M3359>>>" ++ check (runes_of_ascii "root packet matchKey { zchar[ 3 ] pack @calculatedFrom( ""a	b"" ) `doc` , } options { } MetaData A { int8 msg_type , }
+// c
+")).
+Eval vm_compute in ("<<<M3332>>>" ++ check (runes_of_ascii "root packet matchKey { zchar[ 3 ] pack @calculatedFrom( ""a	b"" ) // c
+`doc` , } options { } MetaData A { int8 msg_type , }")).
+Eval vm_compute in ("<<<M3774>>>" ++ check (runes_of_ascii "root packet matchKey {
+    zchar[3] pack @calculatedFrom(""a	b"") `doc`,
+}
+
+options {
+}
+
+MetaData A {
+    int8 msg_type,
+}")).
+Eval vm_compute in ("<<<M3976>>>" ++ check (runes_of_ascii "packet metadata {
+    Logon {
+        // c
+        A `" ++ [28040; 24687; 31867; 22411]%N ++ runes_of_ascii "`,
+        tag o,
+    },
+    zchar len `// not a comment`,
+}")).
+Eval vm_compute in ("<<<M1210>>>" ++ check (runes_of_ascii "
+MetaData chars
+    { // " ++ [128512]%N ++ runes_of_ascii " emoji
+trueish
+rootA `say ""hi""` , uint8 Packet , zchar[ 0123456789
+    //
+    ] Z9_
+,	}
+
+")).
+Eval vm_compute in ("<<<M1049>>>" ++ check (runes_of_ascii "root
+    packet u {
+    @leftPad (	' '
+    // packet A { u8 x, }
+    ) char[	7 ] msg_type @lengthOf( Header) , }
+")).
+Eval vm_compute in ("<<<M1425>>>" ++ check (runes_of_ascii "
 packet
-    falsey { Header@calculatedFrom(""packet""  ) , char[
-    0123456789 ] ] packetx
-    , } // `tick` ""quote"" 'q'")).
-Eval vm_compute in ("<<<M1409>>>" ++ check (runes_of_ascii "
-packet
-    falsey Header {@calculatedFrom(""packet""  ) , char[
+    falsey { Header@calculatedFrom(,  ) , char[
     0123456789 ] packetx
     , } // `tick` ""quote"" 'q'")).
-Eval vm_compute in ("<<<M1765>>>" ++ check (runes_of_ascii "options { trueish = ""`tick`"" ; string_= """ ++ [233]%N ++ runes_of_ascii "t" ++ [233]%N ++ runes_of_ascii """
-    // c
-    } root
-    packet body { stringy @calculatedFrom(
-""a	b"" )")).
-Eval vm_compute in ("<<<M2977>>>" ++ check (runes_of_ascii "packet A {
-  match k as n {
-    [""a"", ""bb"", ""c c"", ""d"", ""e"", ""f"", ""g"", ""h"", ""i"", ""j"", ""k""] : B,
-    2 : C
-  },
+Eval vm_compute in ("<<<M3046>>>" ++ check (runes_of_ascii "packet A {
+    Inner {
+        u8 x `tab
+	x`,
+        Deep {
+            u8 y `tab
+	x`,
+        },
+    },
 }")).
-Eval vm_compute in ("<<<M3707>>>" ++ check (runes_of_ascii "
-
-  root 
-packet// " ++ [128512]%N ++ runes_of_ascii " emoji
-o {
-@calculatedFrom(""a\""b""  //x
-	) repeat
-	crc
-,
-    @tag(
-
-    10
-)	x_y_z	,}
-
-")).
-Eval vm_compute in ("<<<M4392>>>" ++ check (runes_of_ascii "
+Eval vm_compute in ("<<<M4158>>>" ++ check (runes_of_ascii "
 MetaData
-	body { i64
-	pack 
-`it's`
-,
+	body
 
-}
-
-    packet 
-
-    // c
-
-  stringy
-{int16
-calculatedFrom
-
-,
-}
+{  i64 
+pack `it's`  ,  }
+    packet
+stringy
+{  int16
+	calculatedFrom	// c
+    ,  }
 ")).
-Eval vm_compute in ("<<<M3903>>>" ++ check (runes_of_ascii "
-packet A
-
-    {
-Inner
-
-    {
-u8 x
-
-`a
-b`
-,
-
-Deep
-{ u8
-
-    y
-
-    `a
-b`
-	,
-	}
-,
-
-    }, }
+Eval vm_compute in ("<<<M283>>>" ++ check (runes_of_ascii "MetaData asx { chars
+f32a , string /// triple
+T , } options
+{ zchar=
+    10
+    // " ++ [27880; 37322]%N ++ runes_of_ascii "
+    crc= true}
 ")).
-Eval vm_compute in ("<<<M3601>>>" ++ check (runes_of_ascii "packet FooBar {
-    u8 a,
-}
-packet foo_bar {
-    u16 b,
-}
-root packet R {
-    FooBar,
-    foo_bar,
-}
-")).
-Eval vm_compute in ("<<<M136>>>" ++ check (runes_of_ascii "MetaData
-options1
-    {
-    char[ 7 ] i8i8
-, zchar[ 65535
-] u128
-    , char[]  repeatCount
-,
-}
-")).
-Eval vm_compute in ("<<<M2955>>>" ++ check (runes_of_ascii "packet A {
-  match k as n {
-    [""a"", 22, ""c c"", 4, ""e"", 66, ""g"", 8, ""i""] : B,
-    2 : C
-  },
-}")).
-Eval vm_compute in ("<<<M3559>>>" ++ check (runes_of_ascii "options { 
-FixedStringPadFromLeft	= true
-	; }
-
-    root	packet
-
-P{
-	char[4]
-	z
-    ,
+Eval vm_compute in ("<<<M4237>>>" ++ check (runes_of_ascii "MetaData f32a
+{	u32 roots	, 
+T matchKey`tab	here` , 
+    /// triple
+  // packet A { u8 x, }
     }
 ")).
-Eval vm_compute in ("<<<M1395>>>" ++ check (runes_of_ascii "root packet SimpleMessage {
-    uint16 MsgType `" ++ [28040; 24687; 31867; 22411]%N ++ runes_of_ascii "`,
-    string JsonBody `Json" ++ [23383; 31526; 20018; 28040; 24687; 20307]%N ++ runes_of_ascii "`,
+Eval vm_compute in ("<<<M3749>>>" ++ check (runes_of_ascii "options {
+    Pad = ""a	b"";
+    //
+    // `tick` ""quote"" 'q'
+    u = '\x00';
+    lengthOf = ' ';
 }")).
-Eval vm_compute in ("<<<M3274>>>" ++ check (runes_of_ascii "MetaData float {
+Eval vm_compute in ("<<<M2956>>>" ++ check (runes_of_ascii "packet A {
+  match k as n {
+    [""a"", 22, ""c c"", 4, ""e"", 66, ""g"", 8, ""i""] : B
+    2 : C
+  },
+}")).
+Eval vm_compute in ("<<<M2976>>>" ++ check (runes_of_ascii "packet A {
+  match k as n {
+    [1, 22, 007, 4, 5, 66, 7, 8, 9, 10, 11] : B
+    2 : C
+  },
+}")).
+Eval vm_compute in ("<<<M3268>>>" ++ check (runes_of_ascii "
 // c
-float64 charz `
+MetaData float { float64 charz `
 ` , } root packet chars { @rightPad ( '0' ) Foo , }")).
-Eval vm_compute in ("<<<M3485>>>" ++ check (runes_of_ascii "packet // c
-chars { } packet MetaDataX { @tag( 42 ) i16 string_ , repeat x `say ""hi""` , }")).
-Eval vm_compute in ("<<<M3517>>>" ++ check (runes_of_ascii "packet chars { } packet MetaDataX { @tag( 42 ) i16 string_ , repeat x `say ""hi""` , // c
+Eval vm_compute in ("<<<M3280>>>" ++ check (runes_of_ascii "MetaData float { float64 charz `
+`
+// c
+, } root packet chars { @rightPad ( '0' ) Foo , }")).
+Eval vm_compute in ("<<<M3491>>>" ++ check (runes_of_ascii "packet chars { } // c
+packet MetaDataX { @tag( 42 ) i16 string_ , repeat x `say ""hi""` , }")).
+Eval vm_compute in ("<<<M4504>>>" ++ check (runes_of_ascii "// c
+MetaData body {
+    i64 pack `it's`,
+}
+
+packet stringy {
+    int16 calculatedFrom,
 }")).
-Eval vm_compute in ("<<<M2238>>>" ++ check (runes_of_ascii "options
-{ } options { BodyLength u16 = Header= f64 ; u128 =
+Eval vm_compute in ("<<<M2297>>>" ++ check (runes_of_ascii "options
+{ } options { BodyLength= u16 Header=~ f64 ; u128 =
     true
     ; } // a // b")).
-Eval vm_compute in ("<<<M1353>>>" ++ check (runes_of_ascii "MetaData As { char[]calculatedFrom
-,x a1 , int16 //	t
-matchKey `two words` ,
-    }
-")).
-Eval vm_compute in ("<<<M3224>>>" ++ check (runes_of_ascii "packet metadata { Logon { A
+Eval vm_compute in ("<<<M2228>>>" ++ check (runes_of_ascii "options
+{ } options BodyLength {= u16 Header= f64 ; u128 =
+    true
+    ; } // a // b")).
+Eval vm_compute in ("<<<M3231>>>" ++ check (runes_of_ascii "packet metadata { Logon { A `" ++ [28040; 24687; 31867; 22411]%N ++ runes_of_ascii "` , tag o // c
+, } , zchar len `// not a comment` , }")).
+Eval vm_compute in ("<<<M2281>>>" ++ check (runes_of_ascii "options
+{ } options { BodyLength= u16 Header= f64 ; u128 =
+    true
+     } // a // b")).
+Eval vm_compute in ("<<<M3454>>>" ++ check (runes_of_ascii "packet o { repeat Logon uint8x , } options { asx = zchar[
 // c
-`" ++ [28040; 24687; 31867; 22411]%N ++ runes_of_ascii "` , tag o , } , zchar len `// not a comment` , }")).
-Eval vm_compute in ("<<<M1056>>>" ++ check (runes_of_ascii "options {o= 007 Z9_ =
-"""" Logon // a // b
-= 4294967296 //	t
-; }
-packet stringy {}
-")).
-Eval vm_compute in ("<<<M3444>>>" ++ check (runes_of_ascii "packet o { repeat Logon uint8x , }
+3 ] stringy = '\x00' }")).
+Eval vm_compute in ("<<<M965>>>" ++ check (runes_of_ascii "root
+packet roots
+{
+    // " ++ [128512]%N ++ runes_of_ascii " emoji
+    calculatedFrom // c
+x_y_z ,
+    } // a // b")).
+Eval vm_compute in ("<<<M3397>>>" ++ check (runes_of_ascii "MetaData body
 // c
-options { asx = zchar[ 3 ] stringy = '\x00' }")).
-Eval vm_compute in ("<<<M3586>>>" ++ check (runes_of_ascii "packet order_item {
-    u8 a,
-}
-root packet new_order {
-    order_item,
-    u8 x,
-}
-")).
-Eval vm_compute in ("<<<M2899>>>" ++ check (runes_of_ascii "packet A {
-  match k as n {
-    [""a"", ""bb"", ""c c"", ""d"", ""e""] : B,
-    2 : C
-  },
-}")).
-Eval vm_compute in ("<<<M3421>>>" ++ check (runes_of_ascii "MetaData body { i64 pack `it's` , } packet stringy { int16 calculatedFrom ,
-// c
-}")).
-Eval vm_compute in ("<<<M1456>>>" ++ check (runes_of_ascii "
-packet
-    falsey { Header@calculatedFrom(""packet""  ) , char[
-    0123456789 ]")).
+{ i64 pack `it's` , } packet stringy { int16 calculatedFrom , }")).
+Eval vm_compute in ("<<<M1051>>>" ++ check (runes_of_ascii "options {
+//	t
+// packet A { u8 x, }
+roots // packet A { u8 x, }
+= char[42 ]
+; }")).
+Eval vm_compute in ("<<<M2208>>>" ++ check (runes_of_ascii "
+{ } options { BodyLength= u16 Header= f64 ; u128 =
+    true
+    ; } // a // b")).
 Eval vm_compute in ("<<<M1735>>>" ++ check (runes_of_ascii "options { trueish = ""`tick`"" ; string_= """ ++ [233]%N ++ runes_of_ascii "t" ++ [233]%N ++ runes_of_ascii """
     // c
     } root
     packet")).
-Eval vm_compute in ("<<<M2890>>>" ++ check (runes_of_ascii "packet A {
+Eval vm_compute in ("<<<M2888>>>" ++ check (runes_of_ascii "packet A {
   match k as n {
-    [""a"", 22, ""c c"", 4] : B,
+    [1, ""bb"", 007, ""d""] : B,
     2 : C
   },
 }")).
-Eval vm_compute in ("<<<M2881>>>" ++ check (runes_of_ascii "packet A {
+Eval vm_compute in ("<<<M2874>>>" ++ check (runes_of_ascii "packet A {
   match k as n {
-    [""a"", ""bb"", 007] : B,
+    [""a"", ""bb"", ""c c""] : B
     2 : C
   },
 }")).
-Eval vm_compute in ("<<<M3171>>>" ++ check (runes_of_ascii "packet A { match k as n { [ // a
- 1 // b
- , // c
- 2 ] // d
- : B }, }")).
-Eval vm_compute in ("<<<M1730>>>" ++ check (runes_of_ascii "options { trueish = ""`tick`"" ; string_= """ ++ [233]%N ++ runes_of_ascii "t" ++ [233]%N ++ runes_of_ascii """
-    // c
-    } root")).
-Eval vm_compute in ("<<<M2868>>>" ++ check (runes_of_ascii "packet A {
-  match k as n {
-    [""a"", 22] : B,
-    2 : C
-  },
+Eval vm_compute in ("<<<M2285>>>" ++ check (runes_of_ascii "options
+{ } options { BodyLength= u16 Header= f64 ; u128 =
+    true")).
+Eval vm_compute in ("<<<M539>>>" ++ check (runes_of_ascii "root
+packet
+// a // b
+// " ++ [128512]%N ++ runes_of_ascii " emoji
+Z9_ // a // b
+{ // " ++ [128512]%N ++ runes_of_ascii " emoji
+}
+")).
+Eval vm_compute in ("<<<M2808>>>" ++ check (runes_of_ascii ": char[ uint32 float64 uint32 match as i8 uint32 @lengthOf( ' '")).
+Eval vm_compute in ("<<<M22>>>" ++ check (runes_of_ascii "options
+    // a // b
+    {
+float	= char[ 4294967296 ] ; }
+")).
+Eval vm_compute in ("<<<M2414>>>" ++ check (runes_of_ascii "// c
+packet x { @lengthOf( metadata ) repeat lengthOf
+,a1")).
+Eval vm_compute in ("<<<M3740>>>" ++ check (runes_of_ascii "
+root
+
+    packet // c
+    u128 {
+    chars `it's` ,	}
+")).
+Eval vm_compute in ("<<<M1030>>>" ++ check (runes_of_ascii "root packet
+BodyLength{ rootA
+//x
+// " ++ [128512]%N ++ runes_of_ascii " emoji
+roots , }")).
+Eval vm_compute in ("<<<M3047>>>" ++ check (runes_of_ascii "MetaData M {
+    u8 x `tab
+	x`,
+    T t `tab
+	x`,
 }")).
-Eval vm_compute in ("<<<M2717>>>" ++ check (runes_of_ascii "'0' `doc` char[ ) string @leftPad , char[] string root @tag(")).
-Eval vm_compute in ("<<<M3363>>>" ++ check (runes_of_ascii "// c
-packet x { @rightPad ( ) repeat roots Logon `doc` , }")).
-Eval vm_compute in ("<<<M2709>>>" ++ check (runes_of_ascii "'0' @tag( i64 i32 u8 0 } uint64 char u8 @lengthOf( = char")).
-Eval vm_compute in ("<<<M3154>>>" ++ check (runes_of_ascii "packet A { match k as n { 1 : B // a // b 2 : C }, }")).
-Eval vm_compute in ("<<<M3955>>>" ++ check (runes_of_ascii "
-root packet	u128 { chars `it's`
-,
-    // c
+Eval vm_compute in ("<<<M827>>>" ++ check (runes_of_ascii "MetaData
+zchar{zchar[
+    // " ++ [27880; 37322]%N ++ runes_of_ascii "
+    7 ] crc,
+}
+")).
+Eval vm_compute in ("<<<M1123>>>" ++ check (runes_of_ascii "packet
+    string_{  int64	calculatedFrom , }")).
+Eval vm_compute in ("<<<M2726>>>" ++ check (runes_of_ascii "] uint16 options repeat uint8 = u32 int64 }")).
+Eval vm_compute in ("<<<M4247>>>" ++ check (runes_of_ascii "packet len {
+    int16 trueish `
+    `,
+}")).
+Eval vm_compute in ("<<<M240>>>" ++ check (runes_of_ascii "
+packet Header{ char[] body
+//x
+//
+, }
+")).
+Eval vm_compute in ("<<<M2736>>>" ++ check ([65533; 65533]%N ++ runes_of_ascii "l," ++ [65533]%N ++ runes_of_ascii "," ++ [65533]%N ++ runes_of_ascii ":2fu" ++ [65533; 24; 65533; 65533; 65533]%N ++ runes_of_ascii "AF" ++ [65533; 4; 65533; 65533]%N ++ runes_of_ascii "G" ++ [65533; 65533; 65533]%N ++ runes_of_ascii "_e" ++ [65533; 65533; 65533; 65533; 65533]%N ++ runes_of_ascii "PM" ++ [65533; 65533]%N)).
+Eval vm_compute in ("<<<M951>>>" ++ check (runes_of_ascii "MetaData A
+    {
+//
+// @lengthOf(
+}")).
+Eval vm_compute in ("<<<M2825>>>" ++ check ([19; 29165]%N ++ runes_of_ascii "a" ++ [15; 65533; 127; 65533; 65533; 65533; 65533; 17; 65533]%N ++ runes_of_ascii "=" ++ [65533; 65533; 65533; 65533]%N ++ runes_of_ascii "{=xu" ++ [65533; 26]%N ++ runes_of_ascii "6k" ++ [65533]%N ++ runes_of_ascii "N" ++ [65533; 65533; 65533]%N ++ runes_of_ascii "S" ++ [65533]%N ++ runes_of_ascii """r")).
+Eval vm_compute in ("<<<M2587>>>" ++ check (runes_of_ascii "packet A { x @lengthOf(y) `d`, }")).
+Eval vm_compute in ("<<<M169>>>" ++ check (runes_of_ascii "packet
+body { // @lengthOf(
+}")).
+Eval vm_compute in ("<<<M80>>>" ++ check (runes_of_ascii "packet u8x {
+    //	t
     }
-")).
-Eval vm_compute in ("<<<M999>>>" ++ check (runes_of_ascii "MetaData metadata
-    {
-    // c
-    i32
-x , }
-")).
-Eval vm_compute in ("<<<M1126>>>" ++ check (runes_of_ascii "packet Logon
-    { string u  `two words` , }
-")).
-Eval vm_compute in ("<<<M2563>>>" ++ check (runes_of_ascii "packet A { repeat x @calculatedFrom(""c""), }")).
-Eval vm_compute in ("<<<M3150>>>" ++ check (runes_of_ascii "packet A {
-    u8 x,    // c    u8 y,
-}")).
-Eval vm_compute in ("<<<M3902>>>" ++ check (runes_of_ascii "options {
-    leftPad = """ ++ [28040; 24687]%N ++ runes_of_ascii """
-}// " ++ [128512]%N ++ runes_of_ascii " emoji")).
-Eval vm_compute in ("<<<M2583>>>" ++ check (runes_of_ascii "packet A { zchar[3] x @lengthOf(y), }")).
-Eval vm_compute in ("<<<M311>>>" ++ check (runes_of_ascii "  options {
-    asx =
-    '0'
-;}
-")).
-Eval vm_compute in ("<<<M2614>>>" ++ check (runes_of_ascii "packet A { match k as { 1 : B }, }")).
-Eval vm_compute in ("<<<M4465>>>" ++ check (runes_of_ascii "packet  A { u8 
-x `
-`
-
-    ,
-	}")).
-Eval vm_compute in ("<<<M3018>>>" ++ check (runes_of_ascii "root packet A {
-    u8 x `
-`,
-}")).
-Eval vm_compute in ("<<<M3132>>>" ++ check (runes_of_ascii "packet A {
- u8 x `d" ++ [8203]%N ++ runes_of_ascii "`, // c" ++ [8203]%N ++ runes_of_ascii "
-}")).
-Eval vm_compute in ("<<<M118>>>" ++ check (runes_of_ascii "options{
-i64_ = ""`tick`""}
 
 ")).
-Eval vm_compute in ("<<<M2595>>>" ++ check (runes_of_ascii "packet A { x @leftPad(), }")).
-Eval vm_compute in ("<<<M3261>>>" ++ check (runes_of_ascii "root packet pack {
-// c
-}")).
-Eval vm_compute in ("<<<M3737>>>" ++ check (runes_of_ascii "
-packet  A  {  // a
-
+Eval vm_compute in ("<<<M1168>>>" ++ check (runes_of_ascii "MetaData Foo// " ++ [128512]%N ++ runes_of_ascii " emoji
+{  }")).
+Eval vm_compute in ("<<<M2623>>>" ++ check (runes_of_ascii "packet A { @tag(x) u8 x, }")).
+Eval vm_compute in ("<<<M3875>>>" ++ check (runes_of_ascii "
+MetaData o 	 // c
+{
 }
+
 ")).
-Eval vm_compute in ("<<<M465>>>" ++ check (runes_of_ascii "MetaData Z9_
-    {
+Eval vm_compute in ("<<<M2669>>>" ++ check (runes_of_ascii "options { packet = 1; }")).
+Eval vm_compute in ("<<<M2849>>>" ++ check (runes_of_ascii "z0`2w_O`%NxUiI'L*8[s/")).
+Eval vm_compute in ("<<<M385>>>" ++ check (runes_of_ascii "packet lengthOf
+{ }")).
+Eval vm_compute in ("<<<M4396>>>" ++ check (runes_of_ascii "root packet len {
 }")).
-Eval vm_compute in ("<<<M2565>>>" ++ check (runes_of_ascii "packet A { repeat }")).
-Eval vm_compute in ("<<<M215>>>" ++ check (runes_of_ascii "
-packet uint8x	{	}")).
-Eval vm_compute in ("<<<M3115>>>" ++ check (runes_of_ascii "packet A {
+Eval vm_compute in ("<<<M3110>>>" ++ check (runes_of_ascii "packet A {
 }
-// c" ++ [11]%N)).
-Eval vm_compute in ("<<<M3058>>>" ++ check (runes_of_ascii "packet A {
-}// c ")).
+// c" ++ [8287]%N)).
+Eval vm_compute in ("<<<M2796>>>" ++ check (runes_of_ascii "p08:'V`g3?Q~EbZ,T")).
 Eval vm_compute in ("<<<M2758>>>" ++ check (runes_of_ascii "{ uint64 options")).
-Eval vm_compute in ("<<<M2098>>>" ++ check (runes_of_ascii "options{
-_x
-=")).
-Eval vm_compute in ("<<<M2833>>>" ++ check ([651]%N ++ runes_of_ascii "o" ++ [65533; 65533]%N ++ runes_of_ascii "
-z" ++ [65533; 15; 21; 65533]%N ++ runes_of_ascii "y")).
-Eval vm_compute in ("<<<M2466>>>" ++ check (runes_of_ascii "metadata")).
-Eval vm_compute in ("<<<M86>>>" ++ check (runes_of_ascii "
-// c
-")).
-Eval vm_compute in ("<<<M2436>>>" ++ check (runes_of_ascii "zchar")).
-Eval vm_compute in ("<<<M3850>>>" ++ check (runes_of_ascii "///
-")).
-Eval vm_compute in ("<<<M109>>>" ++ check (runes_of_ascii "
-
-
-")).
-Eval vm_compute in ("<<<M2689>>>" ++ check (runes_of_ascii " " ++ [12]%N ++ runes_of_ascii " ")).
-Eval vm_compute in ("<<<M2495>>>" ++ check (runes_of_ascii "@")).
+Eval vm_compute in ("<<<M1011>>>" ++ check (runes_of_ascii "packet len {}")).
+Eval vm_compute in ("<<<M2751>>>" ++ check ([65533; 65533]%N ++ runes_of_ascii "Q" ++ [65533; 65533; 2]%N ++ runes_of_ascii "l" ++ [65533]%N ++ runes_of_ascii "o" ++ [65533]%N ++ runes_of_ascii "Y")).
+Eval vm_compute in ("<<<M2484>>>" ++ check (runes_of_ascii "@leftpad")).
+Eval vm_compute in ("<<<M2452>>>" ++ check (runes_of_ascii "falsey")).
+Eval vm_compute in ("<<<M2490>>>" ++ check (runes_of_ascii "@tag(")).
+Eval vm_compute in ("<<<M2448>>>" ++ check (runes_of_ascii "true")).
+Eval vm_compute in ("<<<M2499>>>" ++ check (runes_of_ascii "/ /")).
+Eval vm_compute in ("<<<M2453>>>" ++ check (runes_of_ascii "as")).
+Eval vm_compute in ("<<<M2677>>>" ++ check (runes_of_ascii ",")).
